@@ -1,10 +1,9 @@
 (* Universal (all sizes) versions of the special-topology constructor facts of Special/ChainProofs.v:
    acceptance, closed form of the node dictionary, root, node count, chain lists and the store
-   invariant, by induction over the parameters (no evaluation over sample ranges). *)
+   invariant, by induction over the sizes (no evaluation over sample ranges). *)
 From Coq Require Import List Arith Bool ZArith Lia Permutation.
-From PTN Require Import TTN.Store TTN.Inv TTN.InvProofs TTN.InvBuild Special.Chain Special.ChainProofs.
+From PTN Require Import TTN.Store TTN.StoreProofs TTN.Inv TTN.InvProofs TTN.InvBuild TTN.InvEdit Special.Chain Special.ChainProofs.
 Import ListNotations.
-
 (* ================================================================================================ *)
 (* generic helpers                                                                                  *)
 (* ================================================================================================ *)
@@ -475,4 +474,1514 @@ Qed.
 Example star_example :
   option_map (fun mv => (nodes (sst (fst mv)), chains (fst mv))) (star_cps false 1 3 2 3)
   = Some (star_nodes 3 2 3, [[1; 5]; [2; 6]; [3; 7]]).
+Proof. vm_compute. reflexivity. Qed.
+
+(* ================================================================================================ *)
+(* more generic helpers (paths whose steps are given by functions of an index)                      *)
+(* ================================================================================================ *)
+Lemma sn_length {A} (l : list A) : forall i x, length (set_nth i x l) = length l.
+Proof. induction l as [|a l IH]; intros [|i] x; simpl; auto. Qed.
+Lemma sn_same {A} (l : list A) : forall i x d, i < length l -> nth i (set_nth i x l) d = x.
+Proof. induction l as [|a l IH]; intros [|i] x d H; simpl in *; auto; try lia. apply IH; lia. Qed.
+Lemma sn_twice {A} (l : list A) : forall i x y, set_nth i y (set_nth i x l) = set_nth i y l.
+Proof. induction l as [|a l IH]; intros [|i] x y; simpl; auto. rewrite IH; auto. Qed.
+Lemma sn_nth {A} (l : list A) : forall i d, set_nth i (nth i l d) l = l.
+Proof. induction l as [|a l IH]; intros [|i] d; simpl; auto. rewrite IH; auto. Qed.
+
+(* what success of a path tells about the wires of the attached nodes *)
+Theorem attach_path_legs xs : forall s e en s',
+  aget e (nodes s) = Some en -> attach_path s e (nvirt en) xs = Some s' ->
+  Forall (fun t : pstep => snd t <= 1) xs -> dims_bounded s ->
+  dims_bounded s'
+  /\ (forall y leg d, leg_dim s y leg d -> leg_dim s' y leg d)
+  /\ (forall x shp cleg, In (x, shp, cleg) xs -> forall leg, 1 <= leg -> leg < length shp ->
+        leg_dim s' x leg (nth (nth leg (child_perm (length shp) cleg) 0) shp 0)).
+Proof.
+  induction xs as [|[[x shp] cleg] rest IH]; intros s e en s' He H Hc B.
+  - simpl in H. inversion H; subst. repeat split; auto. intros ? ? ? [].
+  - simpl in H. destruct (add_child s x shp cleg e (nvirt en)) as [s1|] eqn:E1; simpl in H; [|discriminate].
+    inversion Hc as [|? ? Hc0 Hc']; subst. simpl in Hc0.
+    destruct (add_child_spec _ _ _ _ _ _ _ He E1 Hc0) as (Hx & Hxe & Hcl & Hpl & Hn & Hr & HB & Hframe & Hnew).
+    assert (Hx1 : aget x (nodes s1) = Some (mk_child shp e cleg)).
+    { rewrite Hn, aget_aset_neq, aget_app, Hx by auto. simpl. rewrite Nat.eqb_refl. auto. }
+    change 1 with (nvirt (mk_child shp e cleg)) in H.
+    destruct (IH _ _ _ _ Hx1 H Hc' (HB B)) as (B' & Hfr' & Hnew').
+    assert (Hfr : forall y leg d, leg_dim s y leg d -> leg_dim s1 y leg d).
+    { intros y leg d Hl. apply Hframe; auto. intros ->. destruct Hl as (yn & yt & Hy & _). congruence. }
+    split; [exact B'|]. split.
+    + intros y leg d Hl. apply Hfr', Hfr, Hl.
+    + intros x' shp' cleg' [E|Hin] leg H1 H2.
+      * inversion E; subst. apply Hfr'. apply Hnew; auto.
+      * eapply Hnew'; eauto.
+Qed.
+
+(* the records of a path given by index functions *)
+Lemma chain_nodes_map (key : nat -> id) (shp : nat -> list nat) : forall k a p,
+  chain_nodes p (map (fun j => (key j, shp j, 0)) (seq a k))
+  = map (fun j => (key j, {| parent := Some (if j =? a then p else key (j - 1));
+                            children := if S j <? a + k then [key (S j)] else [];
+                            perm := seq 0 (length (shp j)); shape := shp j |})) (seq a k).
+Proof.
+  induction k as [|k IH]; intros a p; [reflexivity|].
+  cbn [seq map chain_nodes]. rewrite IH. rewrite Nat.eqb_refl. f_equal.
+  - f_equal. destruct k as [|k].
+    + cbn [seq map]. destruct (Nat.ltb_spec (S a) (a + 1)); [lia|]. reflexivity.
+    + cbn [seq map]. destruct (Nat.ltb_spec (S a) (a + S (S k))); [|lia]. reflexivity.
+  - apply map_ext_in. intros j Hj. apply in_seq in Hj. f_equal.
+    destruct (Nat.eqb_spec j a); [lia|]. replace (S a + k) with (a + S k) by lia.
+    destruct (Nat.eqb_spec j (S a)) as [->|]; [|reflexivity].
+    replace (S a - 1) with a by lia. reflexivity.
+Qed.
+
+Lemma aget_map_inj {V} (key : nat -> nat) (f : nat -> V) l i :
+  In i l -> (forall k, In k l -> key k = key i -> k = i) ->
+  aget (key i) (map (fun k => (key k, f k)) l) = Some (f i).
+Proof.
+  induction l as [|a l IH]; intros Hin Hinj; [destruct Hin|].
+  cbn [map aget]. destruct (Nat.eqb_spec (key i) (key a)) as [E|N].
+  - rewrite (Hinj a) by (simpl; auto). reflexivity.
+  - destruct Hin as [->|Hin]; [congruence|]. apply IH; auto. intros; apply Hinj; simpl; auto.
+Qed.
+
+Lemma aset_map_inj {V} (key : nat -> nat) (f : nat -> V) l i v :
+  NoDup l -> In i l -> (forall k, In k l -> key k = key i -> k = i) ->
+  aset (key i) v (map (fun k => (key k, f k)) l) = map (fun k => (key k, if k =? i then v else f k)) l.
+Proof.
+  induction l as [|a l IH]; intros Hnd Hin Hinj; [destruct Hin|].
+  inversion Hnd as [|? ? Hna Hnd']; subst.
+  cbn [map aset]. destruct (Nat.eqb_spec (key i) (key a)) as [E|N].
+  - assert (a = i) by (apply Hinj; simpl; auto). subst a. rewrite Nat.eqb_refl. f_equal.
+    apply map_ext_in. intros k Hk. destruct (Nat.eqb_spec k i); [subst; contradiction|reflexivity].
+  - destruct (Nat.eqb_spec a i); [subst; congruence|]. f_equal.
+    destruct Hin as [->|Hin]; [congruence|]. apply IH; auto. intros; apply Hinj; simpl; auto.
+Qed.
+
+Lemma akeys_map_key {V} (key : nat -> nat) (f : nat -> V) l : akeys (map (fun k => (key k, f k)) l) = map key l.
+Proof. unfold akeys. rewrite map_map. reflexivity. Qed.
+
+(* ================================================================================================ *)
+(* FORK                                                                                             *)
+(* ================================================================================================ *)
+Definition fmain_shape (phys H bd i : nat) : list nat :=
+  if (i =? 0) || (i =? H - 1) then [bd; bd; phys] else [bd; bd; bd; phys].
+Definition fsub_shape (phys W bd j : nat) : list nat := if j =? W - 2 then [bd; phys] else [bd; bd; phys].
+Definition fork_body (N : nat) : fork -> fcall -> option fork :=
+  fun m c => match c with FMain shp => fork_add_main N m shp | FSub shp idx => fork_add_sub N m shp idx end.
+Definition main_steps (N : nat) (shp : nat -> list nat) (a k : nat) : list pstep :=
+  map (fun i => (main_id N i, shp i, 0)) (seq a k).
+Definition sub_steps (N : nat) (shp : nat -> list nat) (i a k : nat) : list pstep :=
+  map (fun j => (sub_id N i j, shp j, 0)) (seq a k).
+
+Lemma steps_cleg (key : nat -> id) (shp : nat -> list nat) a k :
+  Forall (fun t : pstep => snd t <= 1) (map (fun j => (key j, shp j, 0)) (seq a k)).
+Proof. apply Forall_forall. intros t Ht. apply in_map_iff in Ht. destruct Ht as (j & <- & _). simpl; lia. Qed.
+
+(* the main chain after its first node: one path on the current last node *)
+Lemma fork_main_tail N shp : forall k a m p pn,
+  length (mainc m) = a -> 1 <= a -> last (mainc m) 0 = p -> p = main_id N (a - 1) ->
+  aget p (nodes (fst_ m)) = Some pn ->
+  forM (map (fun i => FMain (shp i)) (seq a k)) (Some m) (fork_body N)
+  = option_map (fun s' => {| fst_ := s'; mainc := mainc m ++ map (main_id N) (seq a k);
+                             subc := subc m ++ repeat [] k;
+                             flabels := flabels m ++ map (fun i => (main_id N i, LMain i)) (seq a k) |})
+               (attach_path (fst_ m) p (nvirt pn) (main_steps N shp a k)).
+Proof.
+  induction k as [|k IH]; intros a m p pn Hlen Ha Hlast Hp Hpn.
+  - simpl. rewrite !app_nil_r. destruct m; reflexivity.
+  - unfold main_steps. cbn [seq map]. rewrite forM_cons. cbn [bind attach_path fork_body].
+    unfold fork_add_main. rewrite Hlen, Hlast, Hpn, <- Hp.
+    destruct (Nat.eqb_spec a 0); [lia|].
+    destruct (add_child (fst_ m) (main_id N a) (shp a) 0 p (nvirt pn)) as [s1|] eqn:E1; cbn [bind].
+    2:{ rewrite forM_None. reflexivity. }
+    destruct (add_child_spec _ _ _ _ _ _ _ Hpn E1 (Nat.le_0_l 1)) as (Hx & Hxp & Hcl & Hpl & Hn & _).
+    set (c := main_id N a) in *.
+    set (m1 := {| fst_ := s1; mainc := mainc m ++ [c]; subc := subc m ++ [[]]; flabels := flabels m ++ [(c, LMain a)] |}).
+    rewrite (IH (S a) m1 c (mk_child (shp a) p 0)).
+    + cbn [fst_ mainc subc flabels m1]. fold (main_steps N shp (S a) k).
+      change (nvirt (mk_child (shp a) p 0)) with 1.
+      destruct (attach_path s1 c 1 (main_steps N shp (S a) k)); cbn [option_map]; auto.
+      rewrite <- !app_assoc. reflexivity.
+    + unfold m1; cbn [mainc]. rewrite app_length; simpl; lia.
+    + lia.
+    + unfold m1; cbn [mainc]. apply last_snoc.
+    + unfold c. f_equal. lia.
+    + unfold m1; cbn [fst_]. rewrite Hn, aget_aset_neq, aget_app, Hx by auto. simpl. rewrite Nat.eqb_refl. reflexivity.
+Qed.
+
+(* the rest of a sub chain whose head exists *)
+Lemma fork_sub_tail N shp i : forall k a m sc p pn,
+  i <= length (mainc m) -> i < length (subc m) -> nth i (subc m) [] = sc ->
+  length sc = a -> 1 <= a -> last sc 0 = p -> p = sub_id N i (a - 1) ->
+  aget p (nodes (fst_ m)) = Some pn ->
+  forM (map (fun j => FSub (shp j) i) (seq a k)) (Some m) (fork_body N)
+  = option_map (fun s' => {| fst_ := s'; mainc := mainc m;
+                             subc := set_nth i (sc ++ map (sub_id N i) (seq a k)) (subc m);
+                             flabels := flabels m ++ map (fun j => (sub_id N i j, LSub i j)) (seq a k) |})
+               (attach_path (fst_ m) p (nvirt pn) (sub_steps N shp i a k)).
+Proof.
+  induction k as [|k IH]; intros a m sc p pn Hi Hi2 Hsc Hlen Ha Hlast Hp Hpn.
+  - simpl. rewrite !app_nil_r, <- Hsc, sn_nth. destruct m; reflexivity.
+  - unfold sub_steps. cbn [seq map]. rewrite forM_cons. cbn [bind attach_path fork_body].
+    unfold fork_add_sub.
+    destruct (Nat.ltb_spec (length (mainc m)) i); [lia|].
+    destruct (Nat.leb_spec (length (subc m)) i); [lia|].
+    rewrite Hsc, Hlen. destruct (Nat.eqb_spec a 0); [lia|]. rewrite Hlast, Hpn, <- Hp.
+    destruct (add_child (fst_ m) (sub_id N i a) (shp a) 0 p (nvirt pn)) as [s1|] eqn:E1; cbn [bind].
+    2:{ rewrite forM_None. reflexivity. }
+    destruct (add_child_spec _ _ _ _ _ _ _ Hpn E1 (Nat.le_0_l 1)) as (Hx & Hxp & Hcl & Hpl & Hn & _).
+    set (c := sub_id N i a) in *.
+    set (m1 := {| fst_ := s1; mainc := mainc m; subc := set_nth i (sc ++ [c]) (subc m);
+                  flabels := flabels m ++ [(c, LSub i a)] |}).
+    rewrite (IH (S a) m1 (sc ++ [c]) c (mk_child (shp a) p 0)).
+    + cbn [fst_ mainc subc flabels m1]. fold (sub_steps N shp i (S a) k).
+      change (nvirt (mk_child (shp a) p 0)) with 1.
+      destruct (attach_path s1 c 1 (sub_steps N shp i (S a) k)); cbn [option_map]; auto.
+      rewrite sn_twice, <- !app_assoc. reflexivity.
+    + exact Hi.
+    + unfold m1; cbn [subc]. rewrite sn_length. exact Hi2.
+    + unfold m1; cbn [subc]. apply sn_same. exact Hi2.
+    + rewrite app_length; simpl; lia.
+    + lia.
+    + apply last_snoc.
+    + unfold c. f_equal. lia.
+    + unfold m1; cbn [fst_]. rewrite Hn, aget_aset_neq, aget_app, Hx by auto. simpl. rewrite Nat.eqb_refl. reflexivity.
+Qed.
+
+(* a whole sub chain: one path on the first open leg of its main-chain node *)
+Lemma fork_sub_chain N shp i k m pn :
+  i < length (mainc m) -> i < length (subc m) -> nth i (subc m) [] = [] ->
+  nth i (mainc m) 0 = main_id N i -> aget (main_id N i) (nodes (fst_ m)) = Some pn ->
+  forM (map (fun j => FSub (shp j) i) (seq 0 k)) (Some m) (fork_body N)
+  = option_map (fun s' => {| fst_ := s'; mainc := mainc m;
+                             subc := set_nth i (map (sub_id N i) (seq 0 k)) (subc m);
+                             flabels := flabels m ++ map (fun j => (sub_id N i j, LSub i j)) (seq 0 k) |})
+               (attach_path (fst_ m) (main_id N i) (nvirt pn) (sub_steps N shp i 0 k)).
+Proof.
+  intros Hi Hi2 Hsc Hmi Hpn. destruct k as [|k].
+  - simpl. rewrite app_nil_r, <- Hsc, sn_nth. destruct m; reflexivity.
+  - unfold sub_steps. cbn [seq map]. rewrite forM_cons. cbn [bind attach_path fork_body].
+    unfold fork_add_sub.
+    destruct (Nat.ltb_spec (length (mainc m)) i); [lia|].
+    destruct (Nat.leb_spec (length (subc m)) i); [lia|].
+    rewrite Hsc. cbn [length Nat.eqb]. rewrite Hmi, Hpn.
+    destruct (add_child (fst_ m) (sub_id N i 0) (shp 0) 0 (main_id N i) (nvirt pn)) as [s1|] eqn:E1; cbn [bind].
+    2:{ rewrite forM_None. reflexivity. }
+    destruct (add_child_spec _ _ _ _ _ _ _ Hpn E1 (Nat.le_0_l 1)) as (Hx & Hxp & Hcl & Hpl & Hn & _).
+    set (c := sub_id N i 0) in *.
+    set (m1 := {| fst_ := s1; mainc := mainc m; subc := set_nth i ([] ++ [c]) (subc m);
+                  flabels := flabels m ++ [(c, LSub i 0)] |}).
+    rewrite (fork_sub_tail N shp i k 1 m1 [c] c (mk_child (shp 0) (main_id N i) 0)).
+    + cbn [fst_ mainc subc flabels m1]. fold (sub_steps N shp i 1 k).
+      change (nvirt (mk_child (shp 0) (main_id N i) 0)) with 1.
+      destruct (attach_path s1 c 1 (sub_steps N shp i 1 k)); cbn [option_map]; auto.
+      rewrite sn_twice, <- !app_assoc. reflexivity.
+    + unfold m1; cbn [mainc]. lia.
+    + unfold m1; cbn [subc]. rewrite sn_length. exact Hi2.
+    + unfold m1; cbn [subc]. apply sn_same. exact Hi2.
+    + reflexivity.
+    + lia.
+    + reflexivity.
+    + reflexivity.
+    + unfold m1; cbn [fst_]. rewrite Hn, aget_aset_neq, aget_app, Hx by auto. simpl. rewrite Nat.eqb_refl. reflexivity.
+Qed.
+
+Lemma main_id_inj N i j : 0 < N -> main_id N i = main_id N j -> i = j.
+Proof. unfold main_id, id. intros HN E. apply Nat.mul_cancel_r in E; lia. Qed.
+Lemma sub_main_neq N i j i' : j + 1 < N -> sub_id N i j <> main_id N i'.
+Proof.
+  unfold sub_id, main_id, id. intros HN E.
+  destruct (lin_inj N (1 + j) i 0 i') as (A & _); try lia.
+Qed.
+Lemma sub_id_inj N i j i' j' : j + 1 < N -> j' + 1 < N -> sub_id N i j = sub_id N i' j' -> i = i' /\ j = j'.
+Proof.
+  unfold sub_id, id. intros H1 H2 E.
+  destruct (lin_inj N (1 + j) i (1 + j') i') as (A & B); try lia.
+Qed.
+
+(* ---- closed forms -------------------------------------------------------------------------------- *)
+(* main-chain node i when the first t sub chains exist; node j of sub chain i *)
+Definition main_node (N phys W H bd i t : nat) : node :=
+  {| parent := if i =? 0 then None else Some (main_id N (i - 1));
+     children := (if S i <? H then [main_id N (S i)] else [])
+                 ++ (if (i <? t) && (1 <? W) then [sub_id N i 0] else []);
+     perm := seq 0 (length (fmain_shape phys H bd i)); shape := fmain_shape phys H bd i |}.
+Definition sub_node (N phys W bd i j : nat) : node :=
+  {| parent := Some (if j =? 0 then main_id N i else sub_id N i (j - 1));
+     children := if S j <? W - 1 then [sub_id N i (S j)] else [];
+     perm := seq 0 (length (fsub_shape phys W bd j)); shape := fsub_shape phys W bd j |}.
+Definition fork_nodes_upto (N phys W H bd t : nat) : list (id * node) :=
+  map (fun i => (main_id N i, main_node N phys W H bd i t)) (seq 0 H)
+  ++ flat_map (fun i => map (fun j => (sub_id N i j, sub_node N phys W bd i j)) (seq 0 (W - 1))) (seq 0 t).
+Definition fork_subc_upto (N W H t : nat) : list (list id) :=
+  map (fun i => if i <? t then map (sub_id N i) (seq 0 (W - 1)) else []) (seq 0 H).
+Definition fork_labels_upto (N W H t : nat) : list (id * lbl) :=
+  map (fun i => (main_id N i, LMain i)) (seq 0 H)
+  ++ flat_map (fun i => map (fun j => (sub_id N i j, LSub i j)) (seq 0 (W - 1))) (seq 0 t).
+(* the first open leg of a main-chain node before its sub chain is attached *)
+Definition mfirst (H i : nat) : nat := (if i =? 0 then 0 else 1) + (if S i <? H then 1 else 0).
+
+Lemma main_node_nvirt N phys W H bd i t : t <= i -> nvirt (main_node N phys W H bd i t) = mfirst H i.
+Proof.
+  intros Ht. unfold nvirt, nparents, main_node, mfirst; cbn [parent children].
+  destruct (Nat.ltb_spec i t); [lia|]. cbn [andb]. rewrite app_nil_r.
+  destruct (i =? 0), (S i <? H); reflexivity.
+Qed.
+
+Lemma main_dims_ok N phys H bd : forall k a, 1 <= a -> a + k = H ->
+  path_dims_ok bd (main_steps N (fmain_shape phys H bd) a k).
+Proof.
+  induction k as [|k IH]; intros a Ha Hk; [exact I|].
+  unfold main_steps. cbn [seq map]. fold (main_steps N (fmain_shape phys H bd) (S a) k).
+  cbn [path_dims_ok].
+  assert (Esh : fmain_shape phys H bd a = [bd; bd; phys] \/ fmain_shape phys H bd a = [bd; bd; bd; phys]).
+  { unfold fmain_shape. destruct ((a =? 0) || (a =? H - 1)); auto. }
+  split; [lia|]. split; [destruct Esh as [-> | ->]; simpl; lia|]. split; [destruct Esh as [-> | ->]; reflexivity|].
+  destruct k as [|k]; [exact I|].
+  pose proof (IH (S a) ltac:(lia) ltac:(lia)) as IH'.
+  destruct (main_steps N (fmain_shape phys H bd) (S a) (S k)) eqn:Es; [exact I|].
+  split; [destruct Esh as [-> | ->]; simpl; lia|].
+  destruct Esh as [-> | ->]; exact IH'.
+Qed.
+
+Lemma sub_dims_ok N phys W bd i : forall k a, a + k = W - 1 ->
+  path_dims_ok bd (sub_steps N (fsub_shape phys W bd) i a k).
+Proof.
+  induction k as [|k IH]; intros a Hk; [exact I|].
+  unfold sub_steps. cbn [seq map]. fold (sub_steps N (fsub_shape phys W bd) i (S a) k).
+  cbn [path_dims_ok].
+  destruct (Nat.eqb_spec a (W - 2)) as [E|E].
+  - assert (k = 0) by lia. subst k. unfold fsub_shape. rewrite (proj2 (Nat.eqb_eq _ _) E). simpl. repeat split; lia.
+  - assert (Esh : fsub_shape phys W bd a = [bd; bd; phys]) by (unfold fsub_shape; rewrite (proj2 (Nat.eqb_neq _ _) E); reflexivity).
+    rewrite Esh. split; [lia|]. split; [simpl; lia|]. split; [reflexivity|].
+    destruct k as [|k]; [exact I|].
+    pose proof (IH (S a) ltac:(lia)) as IH'.
+    destruct (sub_steps N (fsub_shape phys W bd) i (S a) (S k)) eqn:Es; [exact I|].
+    split; [simpl; lia|]. exact IH'.
+Qed.
+
+(* the state after the main chain *)
+Lemma fork_phaseA N phys W H bd : 0 < N -> 1 <= H ->
+  exists s, forM (map (fun i => FMain (fmain_shape phys H bd i)) (seq 0 H)) (Some empty_fork) (fork_body N)
+            = Some {| fst_ := s; mainc := map (main_id N) (seq 0 H); subc := repeat [] H;
+                      flabels := map (fun i => (main_id N i, LMain i)) (seq 0 H) |}
+    /\ nodes s = fork_nodes_upto N phys W H bd 0 /\ root s = Some (main_id N 0) /\ dims_bounded s
+    /\ (forall i, i < H -> leg_dim s (main_id N i) (mfirst H i) bd).
+Proof.
+  intros HN HH. destruct H as [|h]; [lia|].
+  set (shp := fmain_shape phys (S h) bd).
+  cbn [seq map]. rewrite forM_cons. cbn [bind fork_body]. unfold fork_add_main.
+  cbn [mainc empty_fork length Nat.eqb fst_].
+  destruct (add_root_accepted empty_store (main_id N 0) (shp 0) eq_refl) as (s0 & E0).
+  rewrite E0. cbn [bind subc flabels empty_fork].
+  destruct (add_root_spec _ _ _ E0) as (Hn0 & Hroot0 & HB0 & Hld0).
+  set (rn := new_node (shp 0)) in *.
+  assert (Hrn : aget (main_id N 0) (nodes s0) = Some rn) by (rewrite Hn0; cbn [aget]; rewrite Nat.eqb_refl; reflexivity).
+  set (m0 := {| fst_ := s0; mainc := [] ++ [main_id N 0]; subc := [] ++ [[]]; flabels := [] ++ [(main_id N 0, LMain 0)] |}).
+  rewrite (fork_main_tail N shp h 1 m0 (main_id N 0) rn); [|reflexivity|lia|reflexivity|reflexivity|exact Hrn].
+  cbn [fst_ mainc subc flabels m0 app].
+  set (steps := main_steps N shp 1 h).
+  assert (Esh0 : shp 0 = [bd; bd; phys]) by reflexivity.
+  assert (Hids : path_ids steps = map (main_id N) (seq 1 h)).
+  { unfold steps, main_steps, path_ids. rewrite map_map. reflexivity. }
+  destruct (attach_path_accepts steps s0 (main_id N 0) rn bd Hrn) as (s1 & Hp & _).
+  { unfold nvirt, nlegs, rn, new_node, nparents; cbn [parent children perm length plus]. rewrite seq_length, Esh0. simpl; lia. }
+  { change (nvirt rn) with 0. pose proof (Hld0 0) as Hd. rewrite Esh0 in Hd. apply Hd. simpl; lia. }
+  { exact HB0. }
+  { rewrite Hids. apply FinFun.Injective_map_NoDup; [|apply seq_NoDup]. intros a b. apply main_id_inj; auto. }
+  { intros x Hx. rewrite Hids in Hx. apply in_map_iff in Hx. destruct Hx as (i & <- & Hi). apply in_seq in Hi.
+    rewrite Hn0. cbn [aget]. destruct (Nat.eqb_spec (main_id N i) (main_id N 0)) as [E|]; auto.
+    apply main_id_inj in E; auto. lia. }
+  { apply main_dims_ok; lia. }
+  rewrite Hp. cbn [option_map].
+  destruct (attach_path_nodes _ _ _ _ _ Hrn Hp (steps_cleg _ _ _ _)) as (Hn1 & Hroot1 & _).
+  destruct (attach_path_legs _ _ _ _ _ Hrn Hp (steps_cleg _ _ _ _) HB0) as (HB1 & Hfr1 & Hnew1).
+  exists s1. split; [reflexivity|]. split; [|split; [congruence|split; [exact HB1|]]].
+  - rewrite Hn1, Hn0. unfold fork_nodes_upto. change (seq 0 0) with (@nil nat). cbn [flat_map]. rewrite app_nil_r.
+    destruct h as [|h].
+    + cbn [steps main_steps seq map path_nodes]. unfold main_node. cbn [Nat.eqb Nat.ltb Nat.leb andb app].
+      reflexivity.
+    + match goal with |- _ = ?r => set (rhs := r) end.
+      unfold steps, main_steps. cbn [seq map path_nodes]. cbn [aset]. rewrite Nat.eqb_refl.
+      change ((main_id N 1, shp 1, 0) :: map (fun i => (main_id N i, shp i, 0)) (seq 2 h))
+        with (map (fun i => (main_id N i, shp i, 0)) (seq 1 (S h))).
+      rewrite chain_nodes_map. unfold rhs. change (seq 0 (S (S h))) with (0 :: seq 1 (S h)). cbn [app map]. f_equal.
+      apply map_ext_in. intros j Hj. apply in_seq in Hj. f_equal. unfold main_node. fold shp.
+      destruct (Nat.eqb_spec j 0); [lia|]. destruct (Nat.ltb_spec j 0); [lia|]. cbn [andb]. rewrite app_nil_r.
+      replace (1 + S h) with (S (S h)) by lia.
+      destruct (Nat.eqb_spec j 1) as [->|]; reflexivity.
+  - intros i Hi. destruct i as [|i].
+    + apply Hfr1. unfold mfirst. cbn [Nat.eqb plus].
+      pose proof (Hld0 (if 1 <? S h then 1 else 0)) as Hd. rewrite Esh0 in Hd.
+      destruct (1 <? S h); apply Hd; simpl; lia.
+    + assert (Hin : In (main_id N (S i), shp (S i), 0) steps).
+      { unfold steps, main_steps. apply in_map_iff. exists (S i). split; auto. apply in_seq. lia. }
+      pose proof (Hnew1 _ _ _ Hin) as Hl. unfold mfirst. cbn [Nat.eqb].
+      destruct (Nat.ltb_spec (S (S i)) (S h)).
+      * assert (Es : shp (S i) = [bd; bd; bd; phys]).
+        { unfold shp, fmain_shape. destruct (Nat.eqb_spec (S i) 0); [lia|].
+          destruct (Nat.eqb_spec (S i) (S h - 1)); [lia|]. reflexivity. }
+        rewrite Es in Hl. apply (Hl 2); simpl; lia.
+      * assert (Es : shp (S i) = [bd; bd; phys]).
+        { unfold shp, fmain_shape. destruct (Nat.eqb_spec (S i) 0); [lia|].
+          destruct (Nat.eqb_spec (S i) (S h - 1)); [|lia]. reflexivity. }
+        rewrite Es in Hl. apply (Hl 1); simpl; lia.
+Qed.
+
+Lemma nth_map_seq {A} (f : nat -> A) d : forall n a i, i < n -> nth i (map f (seq a n)) d = f (a + i).
+Proof.
+  induction n as [|n IH]; intros a i Hi; [lia|]. destruct i; cbn [seq map nth].
+  - f_equal; lia.
+  - rewrite IH by lia. f_equal; lia.
+Qed.
+
+Lemma set_nth_map_seq {A} (f : nat -> A) v : forall n a t,
+  set_nth t v (map f (seq a n)) = map (fun i => if i =? a + t then v else f i) (seq a n).
+Proof.
+  induction n as [|n IH]; intros a t; [destruct t; reflexivity|].
+  destruct t; cbn [seq map set_nth].
+  - rewrite Nat.add_0_r, Nat.eqb_refl. f_equal. apply map_ext_in. intros i Hi. apply in_seq in Hi.
+    destruct (Nat.eqb_spec i a); [lia|reflexivity].
+  - destruct (Nat.eqb_spec a (a + S t)); [lia|]. f_equal. rewrite IH.
+    apply map_ext. intros i. replace (S a + t) with (a + S t) by lia. reflexivity.
+Qed.
+
+Lemma fork_upto_keys N phys W H bd t :
+  akeys (fork_nodes_upto N phys W H bd t)
+  = map (main_id N) (seq 0 H) ++ flat_map (fun i => map (sub_id N i) (seq 0 (W - 1))) (seq 0 t).
+Proof.
+  unfold fork_nodes_upto. rewrite akeys_app, akeys_map_key, akeys_flat_map. f_equal.
+  apply flat_map_ext. intros i. apply akeys_map_key.
+Qed.
+
+(* the state after the main chain and the first t sub chains (width >= 2) *)
+Lemma fork_prefix N phys W H bd s1 : 0 < N -> W <= N -> 2 <= W -> 1 <= H ->
+  nodes s1 = fork_nodes_upto N phys W H bd 0 -> dims_bounded s1 ->
+  (forall i, i < H -> leg_dim s1 (main_id N i) (mfirst H i) bd) ->
+  forall t, t <= H ->
+  exists s, forM (flat_map (fun i => map (fun j => FSub (fsub_shape phys W bd j) i) (seq 0 (W - 1))) (seq 0 t))
+                 (Some {| fst_ := s1; mainc := map (main_id N) (seq 0 H); subc := repeat [] H;
+                          flabels := map (fun i => (main_id N i, LMain i)) (seq 0 H) |}) (fork_body N)
+            = Some {| fst_ := s; mainc := map (main_id N) (seq 0 H); subc := fork_subc_upto N W H t;
+                      flabels := fork_labels_upto N W H t |}
+    /\ nodes s = fork_nodes_upto N phys W H bd t /\ root s = root s1 /\ dims_bounded s
+    /\ (forall i, t <= i -> i < H -> leg_dim s (main_id N i) (mfirst H i) bd).
+Proof.
+  intros HN HWN HW HH Hn1 HB1 Hld1.
+  assert (EW : (1 <? W) = true) by (apply Nat.ltb_lt; lia).
+  induction t as [|t IH]; intros Ht.
+  - exists s1. cbn [seq flat_map forM fold_left]. split; [|repeat split; auto].
+    f_equal. unfold fork_subc_upto, fork_labels_upto. cbn [seq flat_map]. rewrite app_nil_r. f_equal.
+    assert (G : forall l : list nat, repeat (@nil id) (length l)
+              = map (fun i => if i <? 0 then map (sub_id N i) (seq 0 (W - 1)) else []) l).
+    { induction l as [|x l IHl]; [reflexivity|]. cbn [length repeat map]. rewrite IHl. reflexivity. }
+    rewrite <- (G (seq 0 H)), seq_length. reflexivity.
+  - destruct (IH ltac:(lia)) as (s & EF & Hn & Hr & HB & Hld). clear IH.
+    rewrite seq_S, flat_map_app, forM_app, EF. cbn [flat_map plus]. rewrite app_nil_r.
+    set (m := {| fst_ := s; mainc := map (main_id N) (seq 0 H); subc := fork_subc_upto N W H t;
+                 flabels := fork_labels_upto N W H t |}).
+    set (pn := main_node N phys W H bd t t).
+    set (shp := fsub_shape phys W bd).
+    assert (Hinj : forall k, In k (seq 0 H) -> main_id N k = main_id N t -> k = t).
+    { intros k _ E. apply main_id_inj in E; auto. }
+    assert (Hpn : aget (main_id N t) (nodes s) = Some pn).
+    { rewrite Hn. unfold fork_nodes_upto. rewrite aget_app.
+      rewrite (aget_map_inj (main_id N) (fun i => main_node N phys W H bd i t)); auto. apply in_seq; lia. }
+    rewrite (fork_sub_chain N shp t (W - 1) m pn).
+    2:{ unfold m; cbn [mainc]. rewrite map_length, seq_length. lia. }
+    2:{ unfold m; cbn [subc]. unfold fork_subc_upto. rewrite map_length, seq_length. lia. }
+    2:{ unfold m; cbn [subc]. unfold fork_subc_upto. rewrite nth_map_seq by lia. cbn [plus]. rewrite Nat.ltb_irrefl. reflexivity. }
+    2:{ unfold m; cbn [mainc]. rewrite nth_map_seq by lia. reflexivity. }
+    2:{ exact Hpn. }
+    unfold m. cbn [fst_ mainc subc flabels]. clear m.
+    set (steps := sub_steps N shp t 0 (W - 1)).
+    assert (Hids : path_ids steps = map (sub_id N t) (seq 0 (W - 1))).
+    { unfold steps, sub_steps, path_ids. rewrite map_map. reflexivity. }
+    assert (Hnv : nvirt pn = mfirst H t) by (apply main_node_nvirt; lia).
+    assert (Hnl : nvirt pn < nlegs pn).
+    { rewrite Hnv. unfold nlegs, pn, main_node, mfirst, fmain_shape; cbn [perm]. rewrite seq_length.
+      destruct (Nat.eqb_spec t 0); cbn [orb]; [destruct (S t <? H); simpl; lia|].
+      destruct (Nat.eqb_spec t (H - 1)); destruct (Nat.ltb_spec (S t) H); simpl; lia. }
+    destruct (attach_path_accepts steps s (main_id N t) pn bd Hpn Hnl) as (s' & Hp & _).
+    { rewrite Hnv. apply Hld; lia. }
+    { exact HB. }
+    { rewrite Hids. apply FinFun.Injective_map_NoDup; [|apply seq_NoDup]. intros a b E.
+      unfold sub_id, id in E. lia. }
+    { intros x Hx. rewrite Hids in Hx. apply in_map_iff in Hx. destruct Hx as (j & <- & Hj). apply in_seq in Hj.
+      apply aget_None_keys. rewrite Hn, fork_upto_keys. rewrite in_app_iff. intros [E|E].
+      - apply in_map_iff in E. destruct E as (i' & E & _). symmetry in E. revert E. apply sub_main_neq. lia.
+      - apply in_flat_map in E. destruct E as (i' & Hi' & E). apply in_seq in Hi'.
+        apply in_map_iff in E. destruct E as (j' & E & Hj'). apply in_seq in Hj'. apply sub_id_inj in E; lia. }
+    { apply sub_dims_ok. lia. }
+    rewrite Hp. cbn [option_map].
+    destruct (attach_path_nodes _ _ _ _ _ Hpn Hp (steps_cleg _ _ _ _)) as (Hn' & Hr' & _).
+    destruct (attach_path_legs _ _ _ _ _ Hpn Hp (steps_cleg _ _ _ _) HB) as (HB' & Hfr' & _).
+    exists s'. split; [|split; [|split; [congruence|split; [exact HB'|]]]].
+    + f_equal. f_equal.
+      * unfold fork_subc_upto. rewrite set_nth_map_seq. apply map_ext_in. intros i Hi. cbn [plus].
+        destruct (Nat.eqb_spec i t) as [->|].
+        -- destruct (Nat.ltb_spec t (S t)); [reflexivity|lia].
+        -- destruct (Nat.ltb_spec i t), (Nat.ltb_spec i (S t)); try lia; reflexivity.
+      * unfold fork_labels_upto. rewrite seq_S, flat_map_app. cbn [flat_map plus]. rewrite app_nil_r, app_assoc. reflexivity.
+    + rewrite Hn'. unfold steps, sub_steps. destruct (W - 1) as [|k] eqn:EWk; [lia|].
+      match goal with |- _ = ?r => set (rhs := r) end.
+      cbn [seq map path_nodes].
+      change ((sub_id N t 0, shp 0, 0) :: map (fun j => (sub_id N t j, shp j, 0)) (seq 1 k))
+        with (map (fun j => (sub_id N t j, shp j, 0)) (seq 0 (S k))).
+      rewrite chain_nodes_map. rewrite Hn. unfold fork_nodes_upto at 1.
+      rewrite (aset_app_l _ _ _ _ pn).
+      2:{ rewrite (aget_map_inj (main_id N) (fun i => main_node N phys W H bd i t)); auto. apply in_seq; lia. }
+      rewrite (aset_map_inj (main_id N)); auto; [|apply seq_NoDup|apply in_seq; lia].
+      unfold rhs, fork_nodes_upto. rewrite (seq_S t 0), flat_map_app. cbn [flat_map plus]. rewrite app_nil_r, EWk, <- app_assoc.
+      f_equal; [|f_equal].
+      * apply map_ext_in. intros i Hi. f_equal.
+        destruct (Nat.eqb_spec i t) as [->|Nit].
+        -- unfold pn, with_child, main_node. cbn [parent children perm shape]. f_equal.
+           rewrite Nat.ltb_irrefl. cbn [andb]. rewrite app_nil_r, EW.
+           destruct (Nat.ltb_spec t (S t)); [reflexivity|lia].
+        -- unfold main_node. f_equal.
+           destruct (Nat.ltb_spec i t), (Nat.ltb_spec i (S t)); try lia; reflexivity.
+      * apply map_ext_in. intros j Hj. f_equal. unfold sub_node. rewrite EWk. reflexivity.
+    + intros i H1 H2. apply Hfr'. apply Hld; lia.
+Qed.
+
+(* ---- the final closed form ------------------------------------------------------------------------ *)
+Definition fork_main_node (N phys W H bd i : nat) : node :=
+  {| parent := if i =? 0 then None else Some (main_id N (i - 1));
+     children := (if S i <? H then [main_id N (S i)] else []) ++ (if 1 <? W then [sub_id N i 0] else []);
+     perm := seq 0 (length (fmain_shape phys H bd i)); shape := fmain_shape phys H bd i |}.
+Definition fork_nodes (N phys W H bd : nat) : list (id * node) :=
+  map (fun i => (main_id N i, fork_main_node N phys W H bd i)) (seq 0 H)
+  ++ flat_map (fun i => map (fun j => (sub_id N i j, sub_node N phys W bd i j)) (seq 0 (W - 1))) (seq 0 H).
+Definition fork_mainc (N H : nat) : list id := map (main_id N) (seq 0 H).
+Definition fork_subc (N W H : nat) : list (list id) := map (fun i => map (sub_id N i) (seq 0 (W - 1))) (seq 0 H).
+Definition fork_labels (N W H : nat) : list (id * lbl) :=
+  map (fun i => (main_id N i, LMain i)) (seq 0 H)
+  ++ flat_map (fun i => map (fun j => (sub_id N i j, LSub i j)) (seq 0 (W - 1))) (seq 0 H).
+
+Lemma fork_nodes_upto_full N phys W H bd : fork_nodes_upto N phys W H bd H = fork_nodes N phys W H bd.
+Proof.
+  unfold fork_nodes_upto, fork_nodes. f_equal. apply map_ext_in. intros i Hi. apply in_seq in Hi.
+  unfold main_node, fork_main_node. destruct (Nat.ltb_spec i H); [|lia]. reflexivity.
+Qed.
+Lemma fork_subc_upto_full N W H : fork_subc_upto N W H H = fork_subc N W H.
+Proof.
+  unfold fork_subc_upto, fork_subc. apply map_ext_in. intros i Hi. apply in_seq in Hi.
+  destruct (Nat.ltb_spec i H); [|lia]. reflexivity.
+Qed.
+(* width 1: no sub chain is ever created *)
+Lemma fork_nodes_upto_W1 N phys H bd t : fork_nodes_upto N phys 1 H bd t = fork_nodes_upto N phys 1 H bd 0.
+Proof.
+  unfold fork_nodes_upto. cbn [Nat.sub seq map]. rewrite !flat_map_nil. f_equal.
+  apply map_ext. intros i. unfold main_node. cbn [Nat.ltb Nat.leb]. rewrite !andb_false_r. reflexivity.
+Qed.
+
+Lemma ftps_calls_eq phys W H bd :
+  ftps_calls phys W H bd
+  = map (fun i => FMain (fmain_shape phys H bd i)) (seq 0 H)
+    ++ flat_map (fun i => map (fun j => FSub (fsub_shape phys W bd j) i) (seq 0 (W - 1))) (seq 0 H).
+Proof. reflexivity. Qed.
+
+Lemma ftps_calls_length phys W H bd : 1 <= W -> length (ftps_calls phys W H bd) = W * H.
+Proof.
+  intros HW. rewrite ftps_calls_eq, app_length, map_length, seq_length.
+  rewrite (flat_map_length_const _ (W - 1)).
+  - rewrite seq_length. destruct W as [|w]; [lia|]. simpl. rewrite Nat.sub_0_r. lia.
+  - intros. rewrite map_length, seq_length. reflexivity.
+Qed.
+
+Lemma fork_nodes_length N phys W H bd : 1 <= W -> length (fork_nodes N phys W H bd) = W * H.
+Proof.
+  intros HW. unfold fork_nodes. rewrite app_length, map_length, seq_length.
+  rewrite (flat_map_length_const _ (W - 1)).
+  - rewrite seq_length. destruct W as [|w]; [lia|]. simpl. rewrite Nat.sub_0_r. lia.
+  - intros. rewrite map_length, seq_length. reflexivity.
+Qed.
+
+Lemma fork_nodes_keys N phys W H bd :
+  akeys (fork_nodes N phys W H bd)
+  = map (main_id N) (seq 0 H) ++ flat_map (fun i => map (sub_id N i) (seq 0 (W - 1))) (seq 0 H).
+Proof. rewrite <- fork_nodes_upto_full. apply fork_upto_keys. Qed.
+
+Lemma fork_nodes_main N phys W H bd i : 0 < N -> i < H ->
+  aget (main_id N i) (fork_nodes N phys W H bd) = Some (fork_main_node N phys W H bd i).
+Proof.
+  intros HN Hi. unfold fork_nodes. rewrite aget_app.
+  rewrite (aget_map_inj (main_id N) (fun i => fork_main_node N phys W H bd i)); auto.
+  - apply in_seq; lia.
+  - intros k _ E. apply main_id_inj in E; auto.
+Qed.
+
+Lemma fork_nodes_sub N phys W H bd i j : W <= N -> i < H -> j < W - 1 ->
+  aget (sub_id N i j) (fork_nodes N phys W H bd) = Some (sub_node N phys W bd i j).
+Proof.
+  intros HN Hi Hj. unfold fork_nodes. rewrite aget_app.
+  rewrite (proj2 (aget_None_keys _ _)).
+  2:{ rewrite akeys_map_key. intros E. apply in_map_iff in E. destruct E as (i' & E & _).
+      symmetry in E. revert E. apply sub_main_neq. lia. }
+  rewrite (aget_flat_map_unique _ _ i).
+  - apply (aget_map_inj (sub_id N i) (fun j => sub_node N phys W bd i j)).
+    + apply in_seq; lia.
+    + intros k Hk E. apply in_seq in Hk. apply sub_id_inj in E; lia.
+  - apply seq_NoDup.
+  - apply in_seq; lia.
+  - intros i' Hi' Ne. rewrite akeys_map_key. intros E. apply in_map_iff in E. destruct E as (j' & E & Hj').
+    apply in_seq in Hj'. apply sub_id_inj in E; lia.
+Qed.
+
+Lemma map_const_repeat {A B} (c : B) (l : list A) : map (fun _ => c) l = repeat c (length l).
+Proof. induction l; simpl; congruence. Qed.
+
+(* ---- the universal statement --------------------------------------------------------------------- *)
+Theorem ftps_univ_nat (phys W H bd : nat) : 1 <= W -> 1 <= H ->
+  let N := S (W * H) in
+  exists m, fork_build (ftps_calls phys W H bd) = Some m
+    /\ nodes (fst_ m) = fork_nodes N phys W H bd
+    /\ root (fst_ m) = Some (main_id N 0)
+    /\ length (nodes (fst_ m)) = W * H
+    /\ mainc m = fork_mainc N H /\ subc m = fork_subc N W H /\ flabels m = fork_labels N W H
+    /\ wfb (fst_ m) = true.
+Proof.
+  intros HW HH N.
+  assert (G : exists m, fork_build (ftps_calls phys W H bd) = Some m
+    /\ nodes (fst_ m) = fork_nodes N phys W H bd
+    /\ root (fst_ m) = Some (main_id N 0)
+    /\ mainc m = fork_mainc N H /\ subc m = fork_subc N W H /\ flabels m = fork_labels N W H).
+  { assert (Efb : fork_build (ftps_calls phys W H bd)
+                  = forM (ftps_calls phys W H bd) (Some empty_fork) (fork_body N)).
+    { unfold fork_build, N. rewrite ftps_calls_length by lia. reflexivity. }
+    rewrite Efb, ftps_calls_eq, forM_app.
+    destruct (fork_phaseA N phys W H bd ltac:(unfold N; lia) HH) as (s1 & EA & Hn1 & Hr1 & HB1 & Hld1).
+    rewrite EA.
+    destruct (Nat.eq_dec W 1) as [EW1|NW].
+    - subst W. cbn [Nat.sub seq map]. rewrite flat_map_nil. cbn [forM fold_left].
+      eexists; split; [reflexivity|]. cbn [fst_ mainc subc flabels].
+      split; [rewrite Hn1, <- fork_nodes_upto_full, (fork_nodes_upto_W1 N phys H bd H); reflexivity|].
+      split; [exact Hr1|]. split; [reflexivity|]. split.
+      + unfold fork_subc. cbn [Nat.sub seq map]. rewrite map_const_repeat, seq_length. reflexivity.
+      + unfold fork_labels. cbn [Nat.sub seq map]. rewrite flat_map_nil, app_nil_r. reflexivity.
+    - assert (HWN : W <= N) by (unfold N; nia).
+      destruct (fork_prefix N phys W H bd s1 ltac:(unfold N; lia) HWN ltac:(lia) HH Hn1 HB1 Hld1 H (le_n _))
+        as (s & EF & Hn & Hr & _).
+      rewrite EF. eexists; split; [reflexivity|]. cbn [fst_ mainc subc flabels].
+      rewrite Hn, fork_nodes_upto_full, fork_subc_upto_full. repeat split; auto. congruence. }
+  destruct G as (m & E & Hn & Hr & Hm & Hs & Hl). exists m.
+  repeat split; auto.
+  - rewrite Hn. apply fork_nodes_length; auto.
+  - apply (fork_build_wf _ _ E). rewrite Hm. unfold fork_mainc. destruct H; [lia|]. discriminate.
+Qed.
+
+Theorem constant_ftps_univ (phys : nat) (width height bd : Z) :
+  (1 <= width)%Z -> (1 <= height)%Z -> (1 <= bd)%Z ->
+  let W := Z.to_nat width in let H := Z.to_nat height in let B := Z.to_nat bd in
+  let N := S (W * H) in
+  exists m, constant_ftps phys width height bd = Some m
+    /\ nodes (fst_ m) = fork_nodes N phys W H B
+    /\ root (fst_ m) = Some (main_id N 0)
+    /\ length (nodes (fst_ m)) = W * H
+    /\ mainc m = fork_mainc N H /\ subc m = fork_subc N W H /\ flabels m = fork_labels N W H
+    /\ wfb (fst_ m) = true.
+Proof.
+  intros Hw Hh Hb W H B N. unfold constant_ftps.
+  destruct (Z.ltb_spec width 1); [lia|]. destruct (Z.ltb_spec height 1); [lia|]. destruct (Z.ltb_spec bd 1); [lia|].
+  cbn [orb]. apply ftps_univ_nat; unfold W, H; lia.
+Qed.
+
+Example fork_example :
+  option_map (fun m => (nodes (fst_ m), mainc m, subc m)) (constant_ftps 2 3 2 4)
+  = Some (fork_nodes 7 2 3 2 4, [0; 7], [[1; 2]; [8; 9]]).
+Proof. vm_compute. reflexivity. Qed.
+
+(* ================================================================================================ *)
+(* BINARY                                                                                           *)
+(* ================================================================================================ *)
+(* heap arithmetic: the virtual node created k-th (breadth first) has heap index k, level
+   log2 (k + 1) and position k + 1 - 2^level; its children have heap indices 2k+1 and 2k+2 *)
+Definition hpar (i : nat) : nat := (i - 1) / 2.
+Definition hlevel (i : nat) : nat := Nat.log2 (S i).
+Definition hposn (i : nat) : nat := S i - 2 ^ hlevel i.
+Definition hn_of (i : nat) : hn := {| hid := i; hlev := hlevel i; hpos := hposn i |}.
+
+Ltac dlia :=
+  repeat match goal with
+  | |- context [?a / 2] => let q := fresh "q" in let E := fresh "E" in
+       pose proof (Nat.div_mod a 2 ltac:(lia)) as E; pose proof (Nat.mod_upper_bound a 2 ltac:(lia));
+       set (q := a / 2) in *; clearbody q
+  | H0 : context [?a / 2] |- _ => let q := fresh "q" in let E := fresh "E" in
+       pose proof (Nat.div_mod a 2 ltac:(lia)) as E; pose proof (Nat.mod_upper_bound a 2 ltac:(lia));
+       set (q := a / 2) in *; clearbody q
+  end; lia.
+
+Lemma hpar_l k : hpar (2 * k + 1) = k.
+Proof. unfold hpar. dlia. Qed.
+Lemma hpar_r k : hpar (2 * k + 2) = k.
+Proof. unfold hpar. dlia. Qed.
+Lemma hpar_cases i : 1 <= i -> i = 2 * hpar i + 1 \/ i = 2 * hpar i + 2.
+Proof. unfold hpar. intros. dlia. Qed.
+
+Lemma hlevel_spec k : 2 ^ hlevel k <= S k < 2 ^ S (hlevel k).
+Proof. unfold hlevel. apply Nat.log2_spec. lia. Qed.
+Lemma hlevel_l k : hlevel (2 * k + 1) = S (hlevel k).
+Proof. unfold hlevel. replace (S (2 * k + 1)) with (2 * S k) by lia. apply Nat.log2_double. lia. Qed.
+Lemma hlevel_r k : hlevel (2 * k + 2) = S (hlevel k).
+Proof. unfold hlevel. replace (S (2 * k + 2)) with (2 * S k + 1) by lia. apply Nat.log2_succ_double. lia. Qed.
+Lemma hposn_l k : hposn (2 * k + 1) = 2 * hposn k.
+Proof. unfold hposn. rewrite hlevel_l, Nat.pow_succ_r'. pose proof (hlevel_spec k). lia. Qed.
+Lemma hposn_r k : hposn (2 * k + 2) = 2 * hposn k + 1.
+Proof. unfold hposn. rewrite hlevel_r, Nat.pow_succ_r'. pose proof (hlevel_spec k). lia. Qed.
+Lemma virt_id_hn k : virt_id (hlevel k) (hposn k) = k.
+Proof.
+  unfold virt_id, hposn, id. pose proof (hlevel_spec k).
+  pose proof (Nat.pow_nonzero 2 (hlevel k) ltac:(lia)). lia.
+Qed.
+Lemma virt_id_l k : virt_id (S (hlevel k)) (2 * hposn k) = 2 * k + 1.
+Proof. rewrite <- hlevel_l, <- hposn_l. apply virt_id_hn. Qed.
+Lemma virt_id_r k : virt_id (S (hlevel k)) (2 * hposn k + 1) = 2 * k + 2.
+Proof. rewrite <- hlevel_r, <- hposn_r. apply virt_id_hn. Qed.
+
+Lemma bin_loop_eq fuel n b s q lab :
+  bin_loop fuel n b s q lab
+  = if length q =? n then Some (s, q, lab) else
+    match fuel with
+    | O => None
+    | S f =>
+        match q with
+        | [] => None
+        | h :: q' =>
+            if length q' =? n then Some (s, q', lab) else
+            let lev := S (hlev h) in
+            let lp := 2 * hpos h in
+            let rp := 2 * hpos h + 1 in
+            let legs := match root s with
+                        | Some r => if Nat.eqb r (hid h) then (0, 1) else (1, 2)
+                        | None => (1, 2)
+                        end in
+            let l := virt_id lev lp in
+            let r := virt_id lev rp in
+            bind (add_child s l [b; b; b; 1] 0 (hid h) (fst legs)) (fun s1 =>
+            bind (add_child s1 r [b; b; b; 1] 0 (hid h) (snd legs)) (fun s2 =>
+            bin_loop f n b s2 (q' ++ [{| hid := l; hlev := lev; hpos := lp |}; {| hid := r; hlev := lev; hpos := rp |}])
+                     (lab ++ [(l, LVirt lev lp); (r, LVirt lev rp)])))
+        end
+    end.
+Proof. destruct fuel; reflexivity. Qed.
+
+(* the virtual tree after k nodes have been expanded: heap indices 0 .. 2k *)
+Definition vshape (b i : nat) : list nat := if i =? 0 then [b; b; 1] else [b; b; b; 1].
+Definition hnode (b k i : nat) : node :=
+  {| parent := if i =? 0 then None else Some (hpar i);
+     children := if i <? k then [2 * i + 1; 2 * i + 2] else [];
+     perm := seq 0 (length (vshape b i)); shape := vshape b i |}.
+Definition heap_nodes (b k : nat) : list (id * node) := map (fun i => (i, hnode b k i)) (seq 0 (2 * k + 1)).
+Definition heap_queue (k : nat) : list hn := map hn_of (seq k (S k)).
+Definition heap_labels (k : nat) : list (id * lbl) := map (fun i => (i, LVirt (hlevel i) (hposn i))) (seq 0 (2 * k + 1)).
+(* the first two open legs of virtual node i *)
+Definition bleg (i j : nat) : nat := if i =? 0 then j else S j.
+
+Record binv (b k : nat) (s : store) : Prop := {
+  bi_nodes : nodes s = heap_nodes b k;
+  bi_root : root s = Some 0;
+  bi_dims : dims_bounded s;
+  bi_legs : forall i j, k <= i -> i <= 2 * k -> j < 2 -> leg_dim s i (bleg i j) b;
+  bi_wf : Inv.wf s
+}.
+
+Lemma seq_snoc2 a k : seq a (S (S k)) = seq a k ++ [a + k; a + k + 1].
+Proof. replace (S (S k)) with (k + 2) by lia. rewrite seq_app. cbn [seq]. repeat f_equal; lia. Qed.
+
+Lemma heap_nodes_aget b k i : i <= 2 * k -> aget i (heap_nodes b k) = Some (hnode b k i).
+Proof.
+  intros Hi. unfold heap_nodes.
+  apply (aget_map_inj (fun i => i) (fun i => hnode b k i)); [apply in_seq; lia|auto].
+Qed.
+Lemma heap_nodes_none b k i : 2 * k < i -> aget i (heap_nodes b k) = None.
+Proof.
+  intros Hi. apply aget_None_keys. unfold heap_nodes.
+  rewrite (akeys_map_key (fun i => i) (fun i => hnode b k i)), map_id, in_seq. lia.
+Qed.
+
+(* one iteration of add_all_nodes *)
+Lemma bin_step b k s : binv b k s ->
+  exists s1 s2,
+    add_child s (2 * k + 1) [b; b; b; 1] 0 k (if k =? 0 then 0 else 1) = Some s1
+    /\ add_child s1 (2 * k + 2) [b; b; b; 1] 0 k (if k =? 0 then 1 else 2) = Some s2
+    /\ binv b (S k) s2.
+Proof.
+  intros [Hn Hr HB Hl Hw].
+  set (shp := [b; b; b; 1]). set (pn := hnode b k k).
+  assert (Hpn : aget k (nodes s) = Some pn) by (rewrite Hn; apply heap_nodes_aget; lia).
+  assert (Hnv : nvirt pn = if k =? 0 then 0 else 1).
+  { unfold nvirt, nparents, pn, hnode; cbn [parent children]. rewrite Nat.ltb_irrefl. destruct (k =? 0); reflexivity. }
+  assert (Hnl : nlegs pn = if k =? 0 then 3 else 4).
+  { unfold nlegs, pn, hnode, vshape; cbn [perm]. rewrite seq_length. destruct (k =? 0); reflexivity. }
+  assert (Hb0 : bleg k 0 = nvirt pn) by (rewrite Hnv; unfold bleg; destruct (k =? 0); reflexivity).
+  assert (Hb1 : bleg k 1 = S (nvirt pn)) by (rewrite Hnv; unfold bleg; destruct (k =? 0); reflexivity).
+  assert (Hf1 : aget (2 * k + 1) (nodes s) = None) by (rewrite Hn; apply heap_nodes_none; lia).
+  destruct (add_child_accepts s (2 * k + 1) shp 0 k pn b Hpn) as (s1 & E1); auto.
+  { rewrite Hnv, Hnl. destruct (k =? 0); lia. }
+  { rewrite <- Hb0. apply Hl; lia. }
+  { simpl; lia. }
+  destruct (add_child_spec _ _ _ _ _ _ _ Hpn E1 (Nat.le_0_l 1)) as (_ & _ & _ & _ & Hn1 & Hr1 & HB1 & Hfr1 & Hnew1).
+  set (pn1 := with_child pn (2 * k + 1)) in *.
+  assert (Hpn1 : aget k (nodes s1) = Some pn1) by (rewrite Hn1; apply aget_aset_eq).
+  assert (Hf2 : aget (2 * k + 2) (nodes s1) = None).
+  { rewrite Hn1, aget_aset_neq, aget_app, Hn, heap_nodes_none by lia. cbn [aget].
+    destruct (Nat.eqb_spec (2 * k + 2) (2 * k + 1)); [lia|reflexivity]. }
+  destruct (add_child_accepts s1 (2 * k + 2) shp 0 k pn1 b Hpn1) as (s2 & E2); auto.
+  { unfold pn1. rewrite nvirt_with_child, nlegs_with_child, Hnv, Hnl. destruct (k =? 0); lia. }
+  { unfold pn1. rewrite nvirt_with_child, <- Hb1. apply Hfr1; [lia|]. apply Hl; lia. }
+  { simpl; lia. }
+  destruct (add_child_spec _ _ _ _ _ _ _ Hpn1 E2 (Nat.le_0_l 1)) as (_ & _ & _ & _ & Hn2 & Hr2 & HB2 & Hfr2 & Hnew2).
+  exists s1, s2. split; [rewrite <- Hnv; exact E1|]. split.
+  { replace (if k =? 0 then 1 else 2) with (nvirt pn1); [exact E2|].
+    unfold pn1. rewrite nvirt_with_child, Hnv. destruct (k =? 0); reflexivity. }
+  constructor.
+  - rewrite Hn2, Hn1, Hn. unfold heap_nodes.
+    replace (2 * S k + 1) with (S (S (2 * k + 1))) by lia. rewrite seq_snoc2, map_app. cbn [map plus].
+    set (M := map (fun i => (i, hnode b k i)) (seq 0 (2 * k + 1))).
+    assert (HM : aget k M = Some pn) by (apply heap_nodes_aget; lia).
+    rewrite (aset_app_l M _ k pn1 pn HM), <- app_assoc.
+    rewrite (aset_app_l (aset k pn1 M) _ k _ pn1 (aget_aset_eq _ _ _)).
+    unfold M.
+    rewrite (aset_map_inj (fun i => i) (fun i => hnode b k i)); auto; [|apply seq_NoDup|apply in_seq; lia].
+    rewrite (aset_map_inj (fun i => i)); auto; [|apply seq_NoDup|apply in_seq; lia].
+    replace (2 * k + 1 + 1) with (2 * k + 2) by lia.
+    cbn [app]. f_equal; [|f_equal; [|f_equal]].
+    + apply map_ext_in. intros i Hi. apply in_seq in Hi. f_equal.
+      destruct (Nat.eqb_spec i k) as [->|Nik].
+      * unfold pn1, pn, with_child, hnode. cbn [parent children perm shape].
+        rewrite Nat.ltb_irrefl. destruct (Nat.ltb_spec k (S k)); [|lia]. reflexivity.
+      * unfold hnode. f_equal. destruct (Nat.ltb_spec i k), (Nat.ltb_spec i (S k)); try lia; reflexivity.
+    + f_equal. unfold mk_child, hnode, vshape, shp.
+      destruct (Nat.eqb_spec (2 * k + 1) 0); [lia|]. destruct (Nat.ltb_spec (2 * k + 1) (S k)); [lia|].
+      rewrite hpar_l. reflexivity.
+    + f_equal. unfold mk_child, hnode, vshape, shp.
+      destruct (Nat.eqb_spec (2 * k + 2) 0); [lia|]. destruct (Nat.ltb_spec (2 * k + 2) (S k)); [lia|].
+      rewrite hpar_r. reflexivity.
+  - congruence.
+  - auto.
+  - intros i j H1 H2 Hj.
+    assert (Hbl : forall i, i <> 0 -> 1 <= bleg i j /\ bleg i j < 4 /\ nth (bleg i j) shp 0 = b).
+    { intros i' Hi'. unfold bleg. destruct (Nat.eqb_spec i' 0); [lia|]. unfold shp. destruct j as [|[|]]; try lia; simpl; repeat split; lia. }
+    destruct (Nat.eq_dec i (2 * k + 2)) as [->|N2].
+    + destruct (Hbl (2 * k + 2) ltac:(lia)) as (A & B & Cc).
+      pose proof (Hnew2 (HB1 HB) (bleg (2 * k + 2) j) A B) as G.
+      change (child_perm (length shp) 0) with (seq 0 4) in G. rewrite seq_nth in G by lia. cbn [plus] in G.
+      rewrite Cc in G. exact G.
+    + apply Hfr2; [exact N2|].
+      destruct (Nat.eq_dec i (2 * k + 1)) as [->|N1].
+      * destruct (Hbl (2 * k + 1) ltac:(lia)) as (A & B & Cc).
+        pose proof (Hnew1 HB (bleg (2 * k + 1) j) A B) as G.
+        change (child_perm (length shp) 0) with (seq 0 4) in G. rewrite seq_nth in G by lia. cbn [plus] in G.
+        rewrite Cc in G. exact G.
+      * apply Hfr1; [exact N1|]. apply Hl; lia.
+  - eapply add_child_preserves_wf; [|exact E2]. eapply add_child_preserves_wf; [|exact E1]. exact Hw.
+Qed.
+
+(* the loop: n - 1 iterations, the fuel n suffices *)
+Lemma bin_loop_ok b n : 1 <= n -> forall m k fuel s, k + m = n - 1 -> m <= fuel -> binv b k s ->
+  exists s', bin_loop fuel n b s (heap_queue k) (heap_labels k)
+             = Some (s', heap_queue (n - 1), heap_labels (n - 1))
+             /\ binv b (n - 1) s'.
+Proof.
+  intros Hn.
+  assert (HL : forall k, length (heap_queue k) = S k) by (intros; unfold heap_queue; rewrite map_length, seq_length; reflexivity).
+  induction m as [|m IH]; intros k fuel s Hk Hf Hinv.
+  - rewrite bin_loop_eq, HL.
+    destruct (Nat.eqb_spec (S k) n); [|lia]. replace (n - 1) with k by lia. eauto.
+  - rewrite bin_loop_eq, HL.
+    destruct (Nat.eqb_spec (S k) n); [lia|].
+    destruct fuel as [|f]; [lia|].
+    unfold heap_queue at 1. cbn [seq map]. rewrite map_length, seq_length.
+    destruct (Nat.eqb_spec k n); [lia|]. cbv zeta.
+    rewrite (bi_root _ _ _ Hinv). cbn [hn_of hid hlev hpos].
+    rewrite virt_id_l, virt_id_r.
+    destruct (bin_step b k s Hinv) as (s1 & s2 & E1 & E2 & Hinv2).
+    assert (EL : (if 0 =? k then (0, 1) else (1, 2)) = (if k =? 0 then 0 else 1, if k =? 0 then 1 else 2)).
+    { destruct k; reflexivity. }
+    rewrite EL. cbn [fst snd]. rewrite E1. cbn [bind]. rewrite E2. cbn [bind].
+    assert (EQ : map hn_of (seq (S k) k) ++
+                 [{| hid := 2 * k + 1; hlev := S (hlevel k); hpos := 2 * hposn k |};
+                  {| hid := 2 * k + 2; hlev := S (hlevel k); hpos := 2 * hposn k + 1 |}] = heap_queue (S k)).
+    { unfold heap_queue. rewrite seq_snoc2, map_app. cbn [map]. f_equal. unfold hn_of.
+      replace (S k + k) with (2 * k + 1) by lia. replace (2 * k + 1 + 1) with (2 * k + 2) by lia.
+      rewrite hlevel_l, hlevel_r, hposn_l, hposn_r. reflexivity. }
+    assert (ELb : heap_labels k ++ [(2 * k + 1, LVirt (S (hlevel k)) (2 * hposn k));
+                                    (2 * k + 2, LVirt (S (hlevel k)) (2 * hposn k + 1))] = heap_labels (S k)).
+    { unfold heap_labels. replace (2 * S k + 1) with (S (S (2 * k + 1))) by lia. rewrite seq_snoc2, map_app. cbn [map plus].
+      replace (2 * k + 1 + 1) with (2 * k + 2) by lia.
+      rewrite hlevel_l, hlevel_r, hposn_l, hposn_r. reflexivity. }
+    rewrite EQ.
+    match goal with |- context [bin_loop f n b s2 (heap_queue (S k)) ?L] =>
+      replace L with (heap_labels (S k)) by (symmetry; exact ELb) end. apply (IH (S k) f s2); auto; lia.
+Qed.
+
+(* ---- replace_node on a leaf ------------------------------------------------------------------------ *)
+Lemma aget_adel_neq {V} (l : list (nat * V)) k k' : k' <> k -> aget k' (adel k l) = aget k' l.
+Proof.
+  intros N. induction l as [|[a v] l IH]; simpl; auto.
+  destruct (Nat.eqb_spec k a) as [->|Nka]; simpl.
+  - destruct (Nat.eqb_spec k' a); [congruence|reflexivity].
+  - destruct (Nat.eqb k' a); auto.
+Qed.
+Lemma adel_app_r {V} (l1 l2 : list (nat * V)) k : aget k l1 = None -> adel k (l1 ++ l2) = l1 ++ adel k l2.
+Proof.
+  induction l1 as [|[a v] l1 IH]; simpl; auto.
+  destruct (Nat.eqb k a); [discriminate|]. intros H. rewrite IH; auto.
+Qed.
+
+Lemma replace_leaf_spec s new old shp on ot p pn :
+  aget old (nodes s) = Some on -> aget old (tensors s) = Some ot ->
+  children on = [] -> parent on = Some p -> new <> old -> p <> new ->
+  aget p (nodes s) = Some pn -> In old (children pn) ->
+  1 <= length shp -> nth 0 shp 0 = nth 0 (node_shape on) 0 ->
+  exists s', replace_node s new old shp = Some s'
+    /\ nodes s' = aset new {| parent := Some p; children := []; perm := seq 0 (length shp); shape := shp |}
+                    (adel old (aset p (with_children pn (replace_first old new (children pn))) (nodes s)))
+    /\ root s' = root s
+    /\ (forall k, k <> old -> k <> new -> aget k (tensors s') = aget k (tensors s)).
+Proof.
+  intros Hon Hot Hch Hpar Hno Hpn' Hpn Hin Hlen Hdim.
+  unfold replace_node. rewrite Hon, Hot.
+  assert (Hnv : nvirt on = 1) by (unfold nvirt, nparents; rewrite Hpar, Hch; reflexivity).
+  rewrite Hnv. cbn [seq forallb].
+  destruct (Nat.ltb_spec 0 (length shp)); [|lia]. rewrite Hdim, Nat.eqb_refl. cbn [andb negb].
+  unfold replace_node_in_neighbours.
+  destruct (Nat.eqb_spec new old); [congruence|]. rewrite Hon, Hch. cbn [fold_left]. rewrite Hpar.
+  destruct (Nat.eqb_spec p new); [congruence|]. rewrite Hpn.
+  rewrite (proj2 (memb_true _ _) Hin). cbn [bind].
+  match goal with |- context [fresh_wires ?s2 shp] => destruct (fresh_wires s2 shp) as [s3 ws] eqn:E end.
+  apply fw_spec in E. cbn [nodes tensors root upd_tensors upd_nodes set_root next_wire dims] in E.
+  destruct E as (Ews & En & Et & Er & Ed & Ew).
+  unfold fresh_atom. eexists. split; [reflexivity|].
+  cbn [nodes tensors root upd_tensors upd_nodes]. rewrite En, Et, Er.
+  split; [reflexivity|]. split; [reflexivity|].
+  intros k H1 H2. rewrite aget_aset_neq, aget_adel_neq by auto. reflexivity.
+Qed.
+
+(* ================================================================================================ *)
+(* replace_node keeps the store invariant                                                           *)
+(* ================================================================================================ *)
+Lemma nth_firstn_eq {A} (l1 l2 : list A) v i d : firstn v l1 = firstn v l2 -> i < v -> nth i l1 d = nth i l2 d.
+Proof.
+  revert l2 v i. induction l1 as [|a l1 IH]; intros [|b l2] [|v] [|i] H Hi; cbn in *; try lia; try discriminate; auto.
+  - injection H; auto.
+  - injection H as _ H. apply (IH _ v); [exact H|lia].
+Qed.
+
+Lemma firstn_firstn_le {A} (l : list A) a b : a <= b -> firstn a (firstn b l) = firstn a l.
+Proof. intros H. rewrite firstn_firstn. f_equal. lia. Qed.
+
+(* node n gets a new record and tensor: same neighbours, the wires of the virtual legs are kept,
+   the open legs carry fresh wires *)
+Theorem wf_retensor s s' n nd t nd' t' :
+  wf s -> aget n (nodes s) = Some nd -> aget n (tensors s) = Some t ->
+  nodes s' = aset n nd' (nodes s) -> tensors s' = aset n t' (tensors s) -> root s' = root s ->
+  next_wire s <= next_wire s' ->
+  (forall w, w < next_wire s -> wdim s' w = wdim s w) ->
+  (forall w, In w (akeys (dims s')) -> w < next_wire s') ->
+  parent nd' = parent nd -> children nd' = children nd -> nvirt nd <= nlegs nd' ->
+  firstn (nvirt nd) (laxes nd' t') = firstn (nvirt nd) (laxes nd t) ->
+  (forall w, In w (skipn (nvirt nd) (laxes nd' t')) -> next_wire s <= w) ->
+  NoDup (skipn (nvirt nd) (laxes nd' t')) ->
+  Permutation (perm nd') (seq 0 (length (shape nd'))) ->
+  shape nd' = map (wdim s') (axes t') ->
+  (forall w, In w (axes t') -> w < next_wire s') ->
+  wf s'.
+Proof.
+  intros H En Et Hns Hts Hrs Hnw Hwd Hdb Hp Hc Hvl Hfirst Hfresh Hfnd Hperm Hshape Haxes.
+  assert (Hv : nvirt nd' = nvirt nd) by (apply nvirt_ext; assumption).
+  assert (Hnp : nparents nd' = nparents nd) by (apply nparents_ext; assumption).
+  assert (F1 : forall k, aget k (nodes s') = if Nat.eqb k n then Some nd' else aget k (nodes s)).
+  { intros k. rewrite Hns. apply InvProofs.aget_aset. }
+  assert (F2 : forall k, tens s' k = if Nat.eqb k n then t' else tens s k).
+  { intros k. unfold tens. rewrite Hts, InvProofs.aget_aset. destruct (Nat.eqb k n); reflexivity. }
+  assert (Ht : tens s n = t) by (apply tens_aget; exact Et).
+  assert (F3 : forall k nk', aget k (nodes s') = Some nk' ->
+            exists nk, aget k (nodes s) = Some nk /\ parent nk' = parent nk /\ children nk' = children nk
+                       /\ firstn (nvirt nk) (lax s' k nk') = firstn (nvirt nk) (lax s k nk)
+                       /\ (k <> n -> nk' = nk /\ tens s' k = tens s k)).
+  { intros k nk' E. rewrite F1 in E. unfold lax. rewrite F2. destruct (Nat.eqb_spec k n) as [->|Hne].
+    - injection E as <-. exists nd. rewrite Ht. repeat split; auto; congruence.
+    - exists nk'. repeat split; auto. }
+  assert (F4 : forall k nk, aget k (nodes s) = Some nk ->
+            exists nk', aget k (nodes s') = Some nk' /\ parent nk' = parent nk /\ children nk' = children nk
+                        /\ firstn (nvirt nk) (lax s' k nk') = firstn (nvirt nk) (lax s k nk)).
+  { intros k nk E. rewrite F1. unfold lax. rewrite F2. destruct (Nat.eqb_spec k n) as [->|Hne].
+    - exists nd'. rewrite E in En. injection En as ->. rewrite Ht. repeat split; auto.
+    - exists nk. repeat split; auto. }
+  (* owned wires *)
+  assert (Own_n : own_of nd' t' = firstn (nparents nd) (laxes nd t) ++ skipn (nvirt nd) (laxes nd' t')).
+  { unfold own_of. rewrite Hv, Hnp. f_equal.
+    rewrite <- (firstn_firstn_le (laxes nd' t') (nparents nd) (nvirt nd)) by (unfold nvirt; lia).
+    rewrite Hfirst. apply firstn_firstn_le. unfold nvirt; lia. }
+  assert (Own_o : forall k nk', aget k (nodes s') = Some nk' -> k <> n ->
+            exists nk, aget k (nodes s) = Some nk /\ own_of nk' (tens s' k) = own_of nk (tens s k)).
+  { intros k nk' E Hne. destruct (F3 k nk' E) as (nk & E1 & _ & _ & _ & E5). destruct (E5 Hne) as [-> ->].
+    exists nk. split; [exact E1|reflexivity]. }
+  assert (Old_n : forall w, In w (firstn (nparents nd) (laxes nd t)) -> In w (own_of nd (tens s n)) /\ w < next_wire s).
+  { intros w Hw. assert (Hin : In w (own_of nd (tens s n))) by (rewrite Ht; unfold own_of; apply in_or_app; left; exact Hw).
+    split; [exact Hin|]. eapply wf_own_bound; eauto. }
+  constructor.
+  - rewrite Hns. apply NoDup_akeys_aset. apply (wf_nd s H).
+  - rewrite Hts. apply NoDup_akeys_aset. apply (wf_tnd s H).
+  - intros k Hk. apply amem_aget in Hk. destruct Hk as [v Hv']. rewrite Hts, InvProofs.aget_aset in Hv'.
+    apply amem_aget. rewrite F1. destruct (Nat.eqb k n); [eauto|].
+    apply amem_aget. apply (wf_tn s H). apply amem_aget. eauto.
+  - destruct (wf_root s H) as (r & rn & Hr & Er & Hpr & Huniq).
+    destruct (F4 r rn Er) as (rn' & E1 & E2 & _). exists r, rn'. repeat split; auto; [congruence|congruence|].
+    intros k nk' E Hpar. destruct (F3 k nk' E) as (nk & E3 & E4 & _). apply (Huniq k nk E3). congruence.
+  - intros k nk' E. destruct (F3 k nk' E) as (nk & E1 & E2 & E3 & E4 & E5).
+    pose proof (wf_node s H k nk E1) as Hn. constructor.
+    + apply amem_aget. rewrite Hts, InvProofs.aget_aset. destruct (Nat.eqb k n); [eauto|].
+      apply amem_aget. apply (ni_t _ _ _ Hn).
+    + destruct (Nat.eq_dec k n) as [->|Hne].
+      * rewrite F1, Nat.eqb_refl in E. injection E as <-. exact Hperm.
+      * destruct (E5 Hne) as [-> _]. apply (ni_perm _ _ _ Hn).
+    + destruct (Nat.eq_dec k n) as [->|Hne].
+      * rewrite F1, Nat.eqb_refl in E. injection E as <-. rewrite F2, Nat.eqb_refl. exact Hshape.
+      * destruct (E5 Hne) as [-> ->]. rewrite (ni_shape _ _ _ Hn). apply map_ext_in. intros w Hw.
+        symmetry. apply Hwd. apply (wf_wires s H k (tens s k) w); [|exact Hw]. eapply wf_tens; eauto.
+    + destruct (Nat.eq_dec k n) as [->|Hne].
+      * rewrite F1, Nat.eqb_refl in E. injection E as <-. rewrite Hv. exact Hvl.
+      * destruct (E5 Hne) as [-> _]. apply (ni_virt _ _ _ Hn).
+    + rewrite E3. apply (ni_chnd _ _ _ Hn).
+    + intros c Hc'. rewrite E3 in Hc'. destruct (ni_ch _ _ _ Hn c Hc') as (cn & Ec & Epc).
+      destruct (F4 c cn Ec) as (cn' & Ec' & Epc' & _). exists cn'. split; [exact Ec'|congruence].
+    + intros p Hpar. rewrite E2 in Hpar. destruct (ni_par _ _ _ Hn p Hpar) as (pn & i & Epn & Hin & Hni & Hw).
+      destruct (F4 p pn Epn) as (pn' & Epn' & Epp & Epc & Epl). exists pn', i. repeat split.
+      * exact Epn'.
+      * rewrite Epc. exact Hin.
+      * rewrite (neighbour_index_ext _ _ k Epp Epc). exact Hni.
+      * transitivity (nth 0 (lax s k nk) 0).
+        { apply (nth_firstn_eq _ _ _ _ _ E4). unfold nvirt, nparents; rewrite Hpar; lia. }
+        rewrite Hw. symmetry. apply (nth_firstn_eq _ _ _ _ _ Epl). eapply ib_neighbour_index_lt; eauto.
+  - intros k nk' E. destruct (Nat.eq_dec k n) as [->|Hne].
+    + rewrite F1, Nat.eqb_refl in E. injection E as <-. rewrite F2, Nat.eqb_refl, Own_n.
+      apply NoDup_app_iff. split; [|split; [exact Hfnd|]].
+      * pose proof (wf_own1 s H n nd En) as Ho. rewrite Ht in Ho. unfold own_of in Ho.
+        apply NoDup_app_iff in Ho. apply Ho.
+      * intros w Hw1 Hw2. apply Old_n in Hw1. apply Hfresh in Hw2. lia.
+    + destruct (Own_o k nk' E Hne) as (nk & E1 & ->). apply (wf_own1 s H k nk E1).
+  - intros k1 n1 k2 n2 w E1 E2 H1 H2.
+    destruct (Nat.eq_dec k1 n) as [->|N1]; destruct (Nat.eq_dec k2 n) as [->|N2]; auto.
+    + rewrite F1, Nat.eqb_refl in E1. injection E1 as <-. rewrite F2, Nat.eqb_refl, Own_n in H1.
+      destruct (Own_o k2 n2 E2 N2) as (m2 & G2 & Eo). rewrite Eo in H2.
+      apply in_app_or in H1. destruct H1 as [H1|H1].
+      * apply Old_n in H1. destruct H1 as [H1 _]. apply (wf_own2 s H n nd k2 m2 w En G2 H1 H2).
+      * apply Hfresh in H1. pose proof (wf_own_bound s k2 m2 w H G2 H2). lia.
+    + rewrite F1, Nat.eqb_refl in E2. injection E2 as <-. rewrite F2, Nat.eqb_refl, Own_n in H2.
+      destruct (Own_o k1 n1 E1 N1) as (m1 & G1 & Eo). rewrite Eo in H1.
+      apply in_app_or in H2. destruct H2 as [H2|H2].
+      * apply Old_n in H2. destruct H2 as [H2 _]. apply (wf_own2 s H k1 m1 n nd w G1 En H1 H2).
+      * apply Hfresh in H2. pose proof (wf_own_bound s k1 m1 w H G1 H1). lia.
+    + destruct (Own_o k1 n1 E1 N1) as (m1 & G1 & Eo1). destruct (Own_o k2 n2 E2 N2) as (m2 & G2 & Eo2).
+      rewrite Eo1 in H1. rewrite Eo2 in H2. apply (wf_own2 s H k1 m1 k2 m2 w G1 G2 H1 H2).
+  - intros k tk w E Hw. rewrite Hts, InvProofs.aget_aset in E. destruct (Nat.eqb k n).
+    + injection E as <-. apply Haxes. exact Hw.
+    + pose proof (wf_wires s H k tk w E Hw). lia.
+  - exact Hdb.
+  - destruct (wf_acyc s H) as [d Hd]. exists d. intros c cn' p E Hpar.
+    destruct (F3 c cn' E) as (cn & E1 & E2 & _). apply (Hd c cn p E1). congruence.
+Qed.
+
+(* the record and the tensor replace_node installs *)
+Definition rn_node (on : node) (shp : list nat) : node :=
+  {| parent := parent on; children := children on; perm := seq 0 (length shp); shape := shp |}.
+Definition rn_axes (on : node) (ot : sarr) (ws : list wire) : list wire :=
+  firstn (nvirt on) (permute 0 (perm on) (axes ot)) ++ skipn (nvirt on) ws.
+
+Lemma replace_node_inv s new old shp s' :
+  replace_node s new old shp = Some s' ->
+  exists on ot s1 s3 ws a,
+    aget old (nodes s) = Some on /\ aget old (tensors s) = Some ot
+    /\ (forall i, i < nvirt on -> i < length shp /\ nth i shp 0 = nth i (node_shape on) 0)
+    /\ replace_node_in_neighbours s new old true = Some s1
+    /\ fresh_wires (upd_tensors s1 (adel old)) shp = (s3, ws)
+    /\ nodes s' = aset new (rn_node on shp) (nodes s3)
+    /\ tensors s' = aset new {| axes := rn_axes on ot ws; atoms := [a]; bnd := [] |} (tensors s3)
+    /\ root s' = root s3 /\ dims s' = dims s3 /\ next_wire s' = next_wire s3.
+Proof.
+  unfold replace_node. intros H.
+  destruct (aget old (nodes s)) as [on|] eqn:Eon; [|discriminate].
+  destruct (aget old (tensors s)) as [ot|] eqn:Eot; [|discriminate].
+  match type of H with context [forallb ?f ?l] => destruct (forallb f l) eqn:Ec end; cbn [negb] in H; [|discriminate].
+  destruct (replace_node_in_neighbours s new old true) as [s1|] eqn:E1; cbn [bind] in H; [|discriminate].
+  destruct (fresh_wires (upd_tensors s1 (adel old)) shp) as [s3 ws] eqn:E3.
+  unfold fresh_atom in H. injection H as <-.
+  exists on, ot, s1, s3, ws, (next_atom s3). repeat split; auto.
+  - rewrite forallb_forall in Ec. specialize (Ec i ltac:(apply in_seq; lia)).
+    apply andb_prop in Ec. destruct Ec as [A _]. apply Nat.ltb_lt in A. exact A.
+  - rewrite forallb_forall in Ec. specialize (Ec i ltac:(apply in_seq; lia)).
+    apply andb_prop in Ec. destruct Ec as [_ B]. apply Nat.eqb_eq in B. exact B.
+Qed.
+
+Lemma in_firstn_l {A} (l : list A) n x : In x (firstn n l) -> In x l.
+Proof. intros H. rewrite <- (firstn_skipn n l). apply in_or_app; auto. Qed.
+Lemma in_skipn_l {A} (l : list A) n x : In x (skipn n l) -> In x l.
+Proof. intros H. rewrite <- (firstn_skipn n l). apply in_or_app; auto. Qed.
+Lemma firstn_ext_nth {A} (d : A) : forall v (l1 l2 : list A), v <= length l1 -> v <= length l2 ->
+  (forall i, i < v -> nth i l1 d = nth i l2 d) -> firstn v l1 = firstn v l2.
+Proof.
+  induction v as [|v IH]; intros [|a l1] [|b l2] H1 H2 Hn; cbn in *; try lia; auto.
+  f_equal; [apply (Hn 0); lia|]. apply IH; try lia. intros i Hi. apply (Hn (S i)). lia.
+Qed.
+
+Lemma remove_first_incl x l : incl (remove_first x l) l.
+Proof.
+  induction l as [|a l IH]; cbn; [intros y []|]. destruct (Nat.eqb x a).
+  - intros y Hy. right. exact Hy.
+  - intros y [<-|Hy]; [left; reflexivity|right; apply IH; exact Hy].
+Qed.
+Lemma remove_first_nodup x l : NoDup l -> NoDup (remove_first x l).
+Proof.
+  induction l as [|a l IH]; cbn; intros Hnd; [constructor|]. inversion Hnd; subst.
+  destruct (Nat.eqb x a); [assumption|]. constructor; [|auto].
+  intros Hin. apply remove_first_incl in Hin. contradiction.
+Qed.
+
+Theorem replace_node_preserves_wf s new old shp s' :
+  wf s -> new <> old -> aget new (nodes s) = None ->
+  replace_node s new old shp = Some s' -> wf s'.
+Proof.
+  intros H Hne Hnew Hr.
+  destruct (replace_node_inv _ _ _ _ _ Hr) as (on & ot & s1 & s3 & ws & a & Eon & Eot & Hck & E1 & E3 & Hn' & Ht' & Hr' & Hd' & Hw').
+  destruct (replace_node_in_neighbours_fresh s new old true s1 H Hne Hnew E1) as (G & K & R & Ets & Eds & Enw & _).
+  destruct (fresh_wires_spec _ _ _ _ E3) as (Ews & E32 & E33 & E34 & E35 & E36 & _).
+  cbn [nodes tensors root dims next_wire upd_tensors] in Ews, E32, E33, E34, E35, E36.
+  rewrite Enw in Ews, E33. rewrite Eds in E32. rewrite Ets in E35.
+  assert (Hdb : forall w, In w (akeys (dims (upd_tensors s1 (adel old)))) -> w < next_wire (upd_tensors s1 (adel old))).
+  { cbn [dims next_wire upd_tensors]. rewrite Eds, Enw. apply (wf_dims s H). }
+  pose proof (fresh_wires_wdim_new _ _ _ _ E3 Hdb) as Wnew.
+  assert (Wold : forall w, w < next_wire s -> wdim s3 w = wdim s w).
+  { intros w Hw. rewrite (fresh_wires_wdim_old _ _ _ _ w E3) by (cbn [next_wire upd_tensors]; rewrite Enw; exact Hw).
+    unfold wdim. cbn [dims upd_tensors]. rewrite Eds. reflexivity. }
+  pose proof (fresh_wires_dims_bound _ _ _ _ E3 Hdb) as Dbound.
+  set (f := ren1 old new).
+  set (nn := rn_node on shp) in *.
+  set (T := {| axes := rn_axes on ot ws; atoms := [a]; bnd := [] |}) in *.
+  set (v := nvirt on).
+  set (lw := permute 0 (perm on) (axes ot)).
+  pose proof (wf_node s H old on Eon) as Hon.
+  assert (Htens : tens s old = ot) by (apply tens_aget; exact Eot).
+  assert (Hlw : length lw = nlegs on) by (apply permute_length).
+  assert (Hv1 : v <= nlegs on) by apply (ni_virt _ _ _ Hon).
+  assert (Hv2 : v <= length shp).
+  { destruct v as [|v'] eqn:Ev; [lia|]. destruct (Hck v' ltac:(fold v; lia)). lia. }
+  assert (Hlws : length ws = length shp) by (rewrite Ews; apply seq_length).
+  assert (Hlen : length (rn_axes on ot ws) = length shp).
+  { unfold rn_axes. fold v lw. rewrite app_length, firstn_length, skipn_length. lia. }
+  assert (Hlax : laxes nn T = rn_axes on ot ws).
+  { unfold laxes, nn, rn_node, T. cbn [perm axes]. rewrite <- Hlen. apply permute_seq. }
+  assert (Hfl : length (firstn v lw) = v) by (rewrite firstn_length; lia).
+  assert (Hf1 : firstn v (rn_axes on ot ws) = firstn v lw).
+  { unfold rn_axes. fold v lw. rewrite ib_firstn_app_le by (unfold wire in *; lia). rewrite firstn_firstn. f_equal. lia. }
+  assert (Hs1 : skipn v (rn_axes on ot ws) = skipn v ws).
+  { unfold rn_axes. fold v lw. apply ib_skipn_app_len. exact Hfl. }
+  assert (Hlw_old : forall w, In w lw -> w < next_wire s).
+  { intros w Hw. apply (wf_lax_bound s old on w H Eon). unfold lax, laxes. rewrite Htens. exact Hw. }
+  assert (Hws_new : forall w, In w ws -> next_wire s <= w < next_wire s + length shp).
+  { intros w Hw. rewrite Ews in Hw. apply in_seq in Hw. lia. }
+  assert (Hnsh : node_shape on = map (wdim s) lw).
+  { unfold node_shape, lw. rewrite (ni_shape _ _ _ Hon), Htens. apply permute_map.
+    intros i Hi. pose proof (perm_bound _ _ (ni_perm _ _ _ Hon) i Hi) as Hb.
+    pose proof (ni_shape _ _ _ Hon) as Hs. rewrite Htens in Hs. rewrite Hs, map_length in Hb. exact Hb. }
+  (* the intermediate store: old keeps its identifier but gets the new record and tensor *)
+  set (st := {| nodes := aset old nn (nodes s); tensors := aset old T (tensors s); root := root s;
+                dims := dims s'; next_wire := next_wire s'; next_atom := 0; defs := []; atab := [] |}).
+  assert (Wst : forall w, wdim st w = wdim s3 w).
+  { intros w. unfold wdim, st. cbn [dims]. rewrite Hd'. reflexivity. }
+  assert (Hst : wf st).
+  { apply (wf_retensor s st old on ot nn T H Eon Eot); try reflexivity.
+    - unfold st; cbn [next_wire]. rewrite Hw', E33. lia.
+    - intros w Hw. rewrite Wst. apply Wold. exact Hw.
+    - unfold st; cbn [dims next_wire]. rewrite Hd', Hw'. exact Dbound.
+    - unfold nlegs, nn, rn_node; cbn [perm]. rewrite seq_length. exact Hv2.
+    - rewrite Hlax. exact Hf1.
+    - fold v. rewrite Hlax, Hs1. intros w Hw. apply in_skipn_l in Hw. apply Hws_new in Hw. lia.
+    - fold v. rewrite Hlax, Hs1. assert (Hnd : NoDup ws) by (rewrite Ews; apply seq_NoDup).
+      rewrite <- (firstn_skipn v ws) in Hnd. apply NoDup_app_iff in Hnd. apply Hnd.
+    - unfold nn, rn_node, T; cbn [shape axes].
+      rewrite <- (firstn_skipn v (rn_axes on ot ws)), Hf1, Hs1, map_app.
+      rewrite <- (firstn_skipn v shp) at 1. f_equal.
+      + transitivity (firstn v (node_shape on)).
+        * apply (firstn_ext_nth 0); [lia| |].
+          { rewrite Hnsh, map_length. unfold wire in *. lia. }
+          { intros i Hi. apply Hck. exact Hi. }
+        * rewrite Hnsh, firstn_map. apply map_ext_in. intros w Hw. rewrite Wst. symmetry. apply Wold.
+          apply Hlw_old. eapply in_firstn_l; eauto.
+      + rewrite <- Wnew at 1. rewrite skipn_map. apply map_ext. intros w. symmetry. apply Wst.
+    - unfold T; cbn [axes]. unfold st; cbn [next_wire]. rewrite Hw', E33. intros w Hw.
+      unfold rn_axes in Hw. fold v lw in Hw. apply in_app_or in Hw. destruct Hw as [Hw|Hw].
+      + apply in_firstn_l in Hw. apply Hlw_old in Hw. lia.
+      + apply in_skipn_l in Hw. apply Hws_new in Hw. lia. }
+  (* the output is the relabelling old -> new of the intermediate store *)
+  apply (relabels_wf f st s' Hst).
+  assert (Knodes : forall k, aget k (nodes s') = if Nat.eqb k new then Some nn else aget k (nodes s1)).
+  { intros k. rewrite Hn', E34. apply InvProofs.aget_aset. }
+  assert (Ktens : forall k, aget k (tensors s') = if Nat.eqb k new then Some T else aget k (adel old (tensors s))).
+  { intros k. rewrite Ht', E35. apply InvProofs.aget_aset. }
+  assert (Kst : forall k, aget k (nodes st) = if Nat.eqb k old then Some nn else aget k (nodes s)).
+  { intros k. unfold st; cbn [nodes]. apply InvProofs.aget_aset. }
+  assert (Hkeys_st : forall k, In k (akeys (nodes st)) <-> In k (akeys (nodes s))).
+  { intros k. unfold st; cbn [nodes]. rewrite akeys_aset.
+    assert (Hm : amem old (nodes s) = true) by (apply amem_aget; eauto). rewrite Hm. tauto. }
+  assert (Hnn : ren_node f nn = nn).
+  { apply node_ext; cbn [ren_node nn rn_node parent children perm shape]; try reflexivity.
+    - destruct (parent on) as [q|] eqn:Eq; [|reflexivity]. cbn. unfold f. rewrite ren1_other; [reflexivity|].
+      intros ->. apply (wf_not_self_parent s old on H Eon Eq).
+    - unfold f. apply map_ren1_not_in. apply (wf_not_self_child s old on H Eon). }
+  assert (Hnew_s1 : aget new (nodes s1) = None).
+  { rewrite G. destruct (Nat.eqb new old); cbn [andb]; [reflexivity|]. rewrite Hnew. reflexivity. }
+  constructor.
+  - intros x y Hx Hy. apply (ren1_inj old new (akeys (nodes s))); [right; apply aget_None; exact Hnew| |];
+      apply Hkeys_st; assumption.
+  - rewrite Hn', E34. apply NoDup_akeys_aset. rewrite K. apply remove_first_nodup. apply (wf_nd s H).
+  - rewrite Ht', E35. apply NoDup_akeys_aset. apply NoDup_akeys_adel. apply (wf_tnd s H).
+  - intros k nk E. rewrite Kst in E. unfold f, ren1. destruct (Nat.eqb_spec k old) as [->|Nk].
+    + injection E as <-. rewrite Knodes, Nat.eqb_refl. f_equal. symmetry. exact Hnn.
+    + assert (k <> new) by (intros ->; congruence).
+      rewrite Knodes. destruct (Nat.eqb_spec k new); [contradiction|].
+      rewrite G. destruct (Nat.eqb_spec k old); [contradiction|]. cbn [andb]. rewrite E. reflexivity.
+  - intros k' Hk'. apply keys_aget in Hk'. destruct Hk' as [v' Hv']. rewrite Knodes in Hv'.
+    destruct (Nat.eqb_spec k' new) as [->|Nk'].
+    + exists old. split; [unfold f; rewrite ren1_same; reflexivity|]. apply Hkeys_st. eapply aget_Some_keys; eauto.
+    + rewrite G in Hv'. destruct (Nat.eqb_spec k' old) as [->|No]; cbn [andb] in Hv'; [discriminate|].
+      destruct (aget k' (nodes s)) as [nk|] eqn:Ek; [|discriminate].
+      exists k'. split; [unfold f; rewrite ren1_other; auto|]. apply Hkeys_st. eapply aget_Some_keys; eauto.
+  - intros k Hk. apply Hkeys_st in Hk. unfold f, ren1. unfold st; cbn [tensors].
+    destruct (Nat.eqb_spec k old) as [->|Nk].
+    + rewrite Ktens, Nat.eqb_refl, InvProofs.aget_aset, Nat.eqb_refl. reflexivity.
+    + assert (k <> new) by (intros ->; apply aget_None in Hnew; contradiction).
+      rewrite Ktens. destruct (Nat.eqb_spec k new); [contradiction|].
+      rewrite aget_adel_other by exact Nk. rewrite InvProofs.aget_aset. destruct (Nat.eqb_spec k old); [contradiction|reflexivity].
+  - intros k' Hk'. apply keys_aget in Hk'. destruct Hk' as [v' Hv']. rewrite Ktens in Hv'.
+    destruct (Nat.eqb_spec k' new) as [->|Nk'].
+    + exists old. split; [unfold f; rewrite ren1_same; reflexivity|]. apply Hkeys_st. eapply aget_Some_keys; eauto.
+    + destruct (Nat.eq_dec k' old) as [->|No].
+      * rewrite aget_adel_same in Hv' by apply (wf_tnd s H). discriminate.
+      * rewrite aget_adel_other in Hv' by exact No.
+        exists k'. split; [unfold f; rewrite ren1_other; auto|]. apply Hkeys_st.
+        apply (wf_keys_iff s k' H). eapply aget_Some_keys; eauto.
+  - rewrite Hr', E36. cbn [root upd_tensors]. rewrite R. reflexivity.
+  - reflexivity.
+  - reflexivity.
+Qed.
+
+(* ---- the replacement phase (n >= 2): leaf n-1+i becomes site i, in queue order -------------------- *)
+Definition bren (n t c : nat) : nat := if (n - 1 <=? c) && (c <? n - 1 + t) then c + n + 1 else c.
+Definition inode (b n t i : nat) : node :=
+  {| parent := if i =? 0 then None else Some (hpar i);
+     children := [bren n t (2 * i + 1); bren n t (2 * i + 2)];
+     perm := seq 0 (length (vshape b i)); shape := vshape b i |}.
+Definition site_node (n i : nat) (shp : list nat) : node :=
+  {| parent := Some (hpar (n - 1 + i)); children := []; perm := seq 0 (length shp); shape := shp |}.
+Definition bin_nodes_upto (b n t : nat) (shp : list nat) : list (id * node) :=
+  map (fun i => (i, inode b n t i)) (seq 0 (n - 1))
+  ++ map (fun i => (i, hnode b (n - 1) i)) (seq (n - 1 + t) (n - t))
+  ++ map (fun i => (site_id n i, site_node n i shp)) (seq 0 t).
+
+Lemma bren_step n t c : c <> n - 1 + t -> bren n (S t) c = bren n t c.
+Proof.
+  intros H. unfold bren.
+  destruct (Nat.leb_spec (n - 1) c), (Nat.ltb_spec c (n - 1 + S t)), (Nat.ltb_spec c (n - 1 + t)); cbn [andb]; lia.
+Qed.
+Lemma bren_old_S n t : 1 <= n -> bren n (S t) (n - 1 + t) = site_id n t.
+Proof.
+  intros H. unfold bren, site_id, id.
+  destruct (Nat.leb_spec (n - 1) (n - 1 + t)), (Nat.ltb_spec (n - 1 + t) (n - 1 + S t)); cbn [andb]; lia.
+Qed.
+Lemma bren_old n t : bren n t (n - 1 + t) = n - 1 + t.
+Proof. unfold bren. destruct (Nat.ltb_spec (n - 1 + t) (n - 1 + t)); [lia|]. rewrite andb_false_r. reflexivity. Qed.
+Lemma bren_ge n t c : c <= bren n t c.
+Proof. unfold bren. destruct ((n - 1 <=? c) && (c <? n - 1 + t)); lia. Qed.
+Lemma bren_cases n t c : bren n t c = c \/ bren n t c = c + n + 1.
+Proof. unfold bren. destruct ((n - 1 <=? c) && (c <? n - 1 + t)); auto. Qed.
+
+Record p2inv (b n t : nat) (shp : list nat) (s : store) : Prop := {
+  p2_nodes : nodes s = bin_nodes_upto b n t shp;
+  p2_root : root s = Some 0;
+  p2_tens : forall i, n - 1 + t <= i -> i <= 2 * n - 2 -> exists ot, aget i (tensors s) = Some ot;
+  p2_wf : Inv.wf s
+}.
+
+Lemma p2_step b n t shp s : 2 <= n -> t < n -> 1 <= length shp -> nth 0 shp 0 = b ->
+  p2inv b n t shp s ->
+  exists s', replace_node s (site_id n t) (n - 1 + t) shp = Some s' /\ p2inv b n (S t) shp s'.
+Proof.
+  intros Hn Ht Hlen Hdim [Hnodes Hroot Htens Hwf].
+  set (old := n - 1 + t). set (new := site_id n t). set (p := hpar old).
+  assert (Hold : 1 <= old) by (unfold old; lia).
+  assert (Hpc : old = 2 * p + 1 \/ old = 2 * p + 2) by (apply hpar_cases; exact Hold).
+  assert (Hp : p < n - 1) by (unfold old in *; lia).
+  set (A := map (fun i => (i, inode b n t i)) (seq 0 (n - 1))).
+  set (C := map (fun i => (site_id n i, site_node n i shp)) (seq 0 t)).
+  set (B' := map (fun i => (i, hnode b (n - 1) i)) (seq (S old) (n - t - 1))).
+  set (on := hnode b (n - 1) old).
+  assert (EB : map (fun i => (i, hnode b (n - 1) i)) (seq (n - 1 + t) (n - t)) = (old, on) :: B').
+  { replace (n - t) with (S (n - t - 1)) by lia. reflexivity. }
+  assert (Hnodes' : nodes s = A ++ ((old, on) :: B') ++ C).
+  { rewrite Hnodes. unfold bin_nodes_upto. rewrite EB. reflexivity. }
+  assert (HkA : akeys A = seq 0 (n - 1)).
+  { unfold A. rewrite (akeys_map_key (fun i => i)), map_id. reflexivity. }
+  assert (HoA : aget old A = None) by (apply aget_None_keys; rewrite HkA, in_seq; unfold old; lia).
+  set (pn := inode b n t p).
+  assert (HpA : aget p A = Some pn).
+  { unfold A. apply (aget_map_inj (fun i => i) (fun i => inode b n t i)); [apply in_seq; lia|auto]. }
+  assert (Hon : aget old (nodes s) = Some on).
+  { rewrite Hnodes', aget_app, HoA. cbn [app aget]. rewrite Nat.eqb_refl. reflexivity. }
+  assert (Hpn : aget p (nodes s) = Some pn) by (rewrite Hnodes', aget_app, HpA; reflexivity).
+  destruct (Htens old ltac:(unfold old; lia) ltac:(unfold old; lia)) as (ot & Hot).
+  assert (Hon0 : (old =? 0) = false) by (apply Nat.eqb_neq; lia).
+  assert (Honl : (old <? n - 1) = false) by (apply Nat.ltb_ge; unfold old; lia).
+  assert (Hch : children on = []) by (unfold on, hnode; cbn [children]; rewrite Honl; reflexivity).
+  assert (Hpar : parent on = Some p) by (unfold on, hnode; cbn [parent]; rewrite Hon0; reflexivity).
+  assert (Hsh : nth 0 (node_shape on) 0 = b).
+  { unfold on, hnode, node_shape, vshape. cbn [perm shape]. rewrite Hon0. reflexivity. }
+  assert (Hnew_old : new <> old) by (unfold new, old, site_id, id; lia).
+  assert (Hpnew : p <> new) by (unfold new, site_id, id; lia).
+  assert (Hin : In old (children pn)).
+  { unfold pn, inode; cbn [children]. destruct Hpc as [E|E].
+    - left. rewrite <- E. apply bren_old.
+    - right. left. rewrite <- E. apply bren_old. }
+  destruct (replace_leaf_spec s new old shp on ot p pn Hon Hot Hch Hpar Hnew_old Hpnew Hpn Hin Hlen)
+    as (s' & ER & Hn' & Hr' & Ht'); [rewrite Hsh; exact Hdim|].
+  assert (F1 : bren n t old = old) by apply bren_old.
+  assert (F2 : bren n (S t) old = new) by (apply bren_old_S; lia).
+  exists s'. split; [exact ER|]. constructor.
+  - rewrite Hn', Hnodes'.
+    set (pn' := with_children pn (replace_first old new (children pn))).
+    rewrite (aset_app_l A _ p pn' pn HpA).
+    assert (EA : aset p pn' A = map (fun i => (i, inode b n (S t) i)) (seq 0 (n - 1))).
+    { unfold A. rewrite (aset_map_inj (fun i => i) (fun i => inode b n t i)); auto; [|apply seq_NoDup|apply in_seq; lia].
+      apply map_ext_in. intros i Hi. apply in_seq in Hi. f_equal.
+      destruct (Nat.eqb_spec i p) as [->|Nip].
+      - unfold pn', pn, with_children, inode. cbn [parent children perm shape]. f_equal.
+        cbn [replace_first]. destruct Hpc as [E|E].
+        + rewrite <- E, F1, F2, Nat.eqb_refl. rewrite bren_step by (fold old; lia). reflexivity.
+        + rewrite <- E, F1, F2, Nat.eqb_refl.
+          destruct (Nat.eqb_spec old (bren n t (2 * p + 1))) as [E2|_].
+          { exfalso. destruct (bren_cases n t (2 * p + 1)); lia. }
+          rewrite bren_step by (fold old; lia). reflexivity.
+      - unfold inode. f_equal. rewrite !bren_step; [reflexivity| |]; fold old; lia. }
+    rewrite EA.
+    rewrite adel_app_r.
+    2:{ apply aget_None_keys. rewrite (akeys_map_key (fun i => i)), map_id, in_seq. unfold old; lia. }
+    cbn [app adel]. rewrite Nat.eqb_refl.
+    rewrite aset_absent.
+    2:{ apply aget_None_keys. rewrite !akeys_app, (akeys_map_key (fun i => i)), map_id.
+        unfold B', C. rewrite (akeys_map_key (fun i => i)), map_id, (akeys_map_key (site_id n)).
+        rewrite !in_app_iff, !in_seq, in_map_iff. intros [E|[E|E]].
+        - unfold new, site_id, id in E. lia.
+        - unfold new, site_id, id, old in E. lia.
+        - destruct E as (i & E & Hi). apply in_seq in Hi. unfold new, site_id, id in E. lia. }
+    unfold bin_nodes_upto. rewrite <- !app_assoc. f_equal.
+    replace (n - 1 + S t) with (S old) by (unfold old; lia). replace (n - S t) with (n - t - 1) by lia.
+    fold B'. f_equal. rewrite seq_S, map_app. fold C. cbn [map plus]. reflexivity.
+  - congruence.
+  - intros i H1 H2. rewrite Ht' by (unfold old, new, site_id, id; lia). apply Htens; lia.
+  - apply (replace_node_preserves_wf s new old shp s' Hwf Hnew_old); [|exact ER].
+    apply aget_None_keys. rewrite Hnodes'. rewrite !akeys_app, HkA. unfold C.
+    rewrite (akeys_map_key (site_id n)).
+    change (akeys ((old, on) :: B')) with (old :: akeys B'). unfold B'. rewrite (akeys_map_key (fun i => i)), map_id.
+    rewrite !in_app_iff, in_seq, in_map_iff. cbn [In]. rewrite in_seq. intros [E|[[E|E]|E]].
+    + unfold new, site_id, id in E. lia.
+    + unfold new, site_id, id, old in E. lia.
+    + unfold new, site_id, id, old in E. lia.
+    + destruct E as (i & E & Hi). apply in_seq in Hi. unfold new, site_id, id in E. lia.
+Qed.
+
+Lemma p2_loop b n shp : 2 <= n -> 1 <= length shp -> nth 0 shp 0 = b ->
+  forall m t s, t + m = n -> p2inv b n t shp s ->
+  exists s', forM (combine (seq t m) (map hn_of (seq (n - 1 + t) m))) (Some s)
+                  (fun s ih => replace_node s (site_id n (fst ih)) (hid (snd ih)) shp) = Some s'
+             /\ p2inv b n n shp s'.
+Proof.
+  intros Hn Hlen Hdim. induction m as [|m IH]; intros t s Ht Hinv.
+  - exists s. split; [reflexivity|]. replace n with t by lia. replace (t + 0) with t in Hinv by lia.
+    replace n with t in Hinv by lia. exact Hinv.
+  - cbn [seq map combine]. rewrite forM_cons. cbn [bind fst snd hn_of hid].
+    destruct (p2_step b n t shp s Hn ltac:(lia) Hlen Hdim Hinv) as (s1 & E1 & Hinv1).
+    rewrite E1. replace (S (n - 1 + t)) with (n - 1 + S t) by lia. apply IH; [lia|exact Hinv1].
+Qed.
+
+(* ---- the final closed form ------------------------------------------------------------------------- *)
+(* identifiers: internal virtual node i (heap index, i < n-1) keeps i; the leaf with heap index
+   n-1+i becomes site_id n i.  Children of internal node i are the heap children 2i+1, 2i+2,
+   renamed when they are leaves *)
+Definition bchild (n c : nat) : id := if n - 1 <=? c then site_id n (c - (n - 1)) else c.
+Definition bin_inode (b n i : nat) : node :=
+  {| parent := if i =? 0 then None else Some (hpar i);
+     children := [bchild n (2 * i + 1); bchild n (2 * i + 2)];
+     perm := seq 0 (length (vshape b i)); shape := vshape b i |}.
+Definition bin_nodes (b n : nat) (shp : list nat) : list (id * node) :=
+  map (fun i => (i, bin_inode b n i)) (seq 0 (n - 1))
+  ++ map (fun i => (site_id n i, site_node n i shp)) (seq 0 n).
+Definition bin_labels (n : nat) : list (id * lbl) :=
+  map (fun i => (i, LVirt (hlevel i) (hposn i))) (seq 0 (2 * n - 1))
+  ++ map (fun i => (site_id n i, LSite i)) (seq 0 n).
+
+Lemma bin_nodes_upto_full b n shp : 1 <= n -> bin_nodes_upto b n n shp = bin_nodes b n shp.
+Proof.
+  intros Hn. unfold bin_nodes_upto, bin_nodes. rewrite Nat.sub_diag. cbn [seq map app]. f_equal.
+  apply map_ext_in. intros i Hi. apply in_seq in Hi. unfold inode, bin_inode.
+  assert (G : forall c, c <= 2 * n - 2 -> bren n n c = bchild n c).
+  { intros c Hc. unfold bren, bchild, site_id, id.
+    destruct (Nat.leb_spec (n - 1) c), (Nat.ltb_spec c (n - 1 + n)); cbn [andb]; lia. }
+  rewrite !G by lia. reflexivity.
+Qed.
+
+Lemma bin_nodes_length b n shp : 1 <= n -> length (bin_nodes b n shp) = 2 * n - 1.
+Proof. intros. unfold bin_nodes. rewrite app_length, !map_length, !seq_length. lia. Qed.
+
+Lemma bin_nodes_keys b n shp : akeys (bin_nodes b n shp) = seq 0 (n - 1) ++ map (site_id n) (seq 0 n).
+Proof.
+  unfold bin_nodes. rewrite akeys_app, (akeys_map_key (fun i => i)), map_id, (akeys_map_key (site_id n)). reflexivity.
+Qed.
+
+Lemma bin_nodes_virtual b n shp i : i < n - 1 -> aget i (bin_nodes b n shp) = Some (bin_inode b n i).
+Proof.
+  intros Hi. unfold bin_nodes. rewrite aget_app.
+  rewrite (aget_map_inj (fun i => i) (fun i => bin_inode b n i)); auto. apply in_seq; lia.
+Qed.
+
+Lemma bin_nodes_site b n shp i : i < n -> aget (site_id n i) (bin_nodes b n shp) = Some (site_node n i shp).
+Proof.
+  intros Hi. unfold bin_nodes. rewrite aget_app.
+  rewrite (proj2 (aget_None_keys _ _)).
+  2:{ rewrite (akeys_map_key (fun i => i)), map_id, in_seq. unfold site_id, id. lia. }
+  apply (aget_map_inj (site_id n) (fun i => site_node n i shp)); [apply in_seq; lia|].
+  intros k _ E. unfold site_id, id in E. lia.
+Qed.
+
+(* ---- the virtual tree (any number of sites) ---------------------------------------------------------- *)
+Lemma binary_phase1 b n : 1 <= n ->
+  exists s0 s1, add_root empty_store (virt_id 0 0) [b; b; 1] = Some s0
+    /\ bin_loop n n b s0 [{| hid := virt_id 0 0; hlev := 0; hpos := 0 |}] [(virt_id 0 0, LVirt 0 0)]
+       = Some (s1, heap_queue (n - 1), heap_labels (n - 1))
+    /\ binv b (n - 1) s1.
+Proof.
+  intros Hn.
+  destruct (add_root_accepted empty_store (virt_id 0 0) [b; b; 1] eq_refl) as (s0 & E0).
+  destruct (add_root_spec _ _ _ E0) as (Hn0 & Hroot0 & HB0 & Hld0).
+  assert (I0 : binv b 0 s0).
+  { constructor; auto.
+    - intros i j H1 H2 Hj. assert (i = 0) by lia. subst i. unfold bleg. cbn [Nat.eqb].
+      pose proof (Hld0 j) as Hd. destruct j as [|[|]]; try lia; apply Hd; simpl; lia.
+    - eapply add_root_wf; [apply blank_empty|exact E0]. }
+  destruct (bin_loop_ok b n Hn (n - 1) 0 n s0 ltac:(lia) ltac:(lia) I0) as (s1 & EL & I1).
+  exists s0, s1. split; [exact E0|]. split; [exact EL|exact I1].
+Qed.
+
+Lemma binv_p2 b n shp s1 : 2 <= n -> binv b (n - 1) s1 -> p2inv b n 0 shp s1.
+Proof.
+  intros Hn2 [Hn1 Hr1 _ _ Hw1]. constructor; auto.
+  - rewrite Hn1. unfold heap_nodes, bin_nodes_upto. cbn [seq map]. rewrite app_nil_r.
+    replace (2 * (n - 1) + 1) with ((n - 1) + n) by lia. rewrite seq_app, map_app.
+    rewrite Nat.add_0_r, Nat.sub_0_r. cbn [plus]. f_equal.
+    apply map_ext_in. intros i Hi. apply in_seq in Hi. f_equal. unfold hnode, inode. f_equal.
+    destruct (Nat.ltb_spec i (n - 1)); [|lia].
+    assert (G : forall c, bren n 0 c = c).
+    { intros c. unfold bren. destruct (Nat.leb_spec (n - 1) c), (Nat.ltb_spec c (n - 1 + 0)); cbn [andb]; lia. }
+    rewrite !G. reflexivity.
+  - intros i H1 H2. assert (Hi : aget i (nodes s1) = Some (hnode b (n - 1) i)).
+    { rewrite Hn1. apply heap_nodes_aget. lia. }
+    pose proof (ni_t _ _ _ (wf_node _ Hw1 _ _ Hi)) as Ht. unfold amem in Ht.
+    destruct (aget i (tensors s1)) as [ot|]; [eauto|discriminate].
+Qed.
+
+(* ---- the universal statement (at least two physical sites) ---------------------------------------- *)
+Theorem binary_ttns_univ (nphys bd : Z) (shp : list nat) :
+  (2 <= nphys)%Z -> (1 <= bd)%Z -> 1 <= length shp -> nth 0 shp 0 = Z.to_nat bd ->
+  let n := Z.to_nat nphys in let b := Z.to_nat bd in
+  exists s, binary_ttns nphys bd shp = Some (s, bin_labels n)
+    /\ nodes s = bin_nodes b n shp /\ root s = Some 0 /\ length (nodes s) = 2 * n - 1
+    /\ wfb s = true.
+Proof.
+  intros Hn Hb Hlen Hdim n b. unfold binary_ttns.
+  destruct (Z.ltb_spec nphys 1); [lia|]. destruct (Z.ltb_spec bd 1); [lia|]. cbn [orb]. fold n. fold b.
+  assert (Hn2 : 2 <= n) by (unfold n; lia).
+  destruct (binary_phase1 b n ltac:(lia)) as (s0 & s1 & E0 & EL & I1).
+  rewrite E0. cbn [bind]. rewrite EL. cbn [bind].
+  pose proof (binv_p2 b n shp s1 Hn2 I1) as P0.
+  assert (LQ : length (heap_queue (n - 1)) = n).
+  { unfold heap_queue. rewrite map_length, seq_length. lia. }
+  rewrite LQ. unfold heap_queue. replace (S (n - 1)) with n by lia.
+  destruct (p2_loop b n shp Hn2 Hlen Hdim n 0 s1 ltac:(lia) P0) as (s2 & E2 & [Hn2' Hr2 _ Hw2]).
+  rewrite Nat.add_0_r in E2. rewrite E2. cbn [bind].
+  exists s2. split.
+  - f_equal. f_equal. unfold bin_labels, heap_labels. replace (2 * (n - 1) + 1) with (2 * n - 1) by lia. reflexivity.
+  - rewrite Hn2', bin_nodes_upto_full by lia. split; [reflexivity|]. split; [exact Hr2|].
+    split; [apply bin_nodes_length; lia|]. apply wfb_iff. exact Hw2.
+Qed.
+
+(* the condition on the physical tensor is exact: with at least two sites every other shape is rejected
+   (replace_node compares the parent leg of the first leaf with axis 0 of the physical tensor) *)
+Theorem binary_ttns_rejects (nphys bd : Z) (shp : list nat) :
+  (2 <= nphys)%Z -> (1 <= bd)%Z -> (length shp = 0 \/ nth 0 shp 0 <> Z.to_nat bd) ->
+  binary_ttns nphys bd shp = None.
+Proof.
+  intros Hn Hb Hbad. unfold binary_ttns.
+  destruct (Z.ltb_spec nphys 1); [lia|]. destruct (Z.ltb_spec bd 1); [lia|]. cbn [orb].
+  set (n := Z.to_nat nphys). set (b := Z.to_nat bd) in *.
+  assert (Hn2 : 2 <= n) by (unfold n; lia).
+  destruct (binary_phase1 b n ltac:(lia)) as (s0 & s1 & E0 & EL & I1).
+  rewrite E0. cbn [bind]. rewrite EL. cbn [bind].
+  destruct (binv_p2 b n shp s1 Hn2 I1) as [_ _ Ht _].
+  destruct (Ht (n - 1) ltac:(lia) ltac:(lia)) as (ot & Hot).
+  assert (Hon : aget (n - 1) (nodes s1) = Some (hnode b (n - 1) (n - 1))).
+  { rewrite (bi_nodes _ _ _ I1). apply heap_nodes_aget. lia. }
+  unfold heap_queue. replace (S (n - 1)) with (S (n - 1)) by lia.
+  rewrite map_length, seq_length. cbn [seq map combine]. rewrite forM_cons. cbn [bind fst snd hn_of hid].
+  unfold replace_node. rewrite Hon, Hot.
+  assert (Hon0 : (n - 1 =? 0) = false) by (apply Nat.eqb_neq; lia).
+  assert (Hnv : nvirt (hnode b (n - 1) (n - 1)) = 1).
+  { unfold nvirt, nparents, hnode. cbn [parent children]. rewrite Hon0, Nat.ltb_irrefl. reflexivity. }
+  assert (Hsh : nth 0 (node_shape (hnode b (n - 1) (n - 1))) 0 = b).
+  { unfold hnode, node_shape, vshape. cbn [perm shape]. rewrite Hon0. reflexivity. }
+  rewrite Hnv. cbn [seq forallb]. rewrite Hsh.
+  assert (Ebad : (0 <? length shp) && (nth 0 shp 0 =? b) = false).
+  { destruct Hbad as [E|E].
+    - rewrite E. reflexivity.
+    - apply Nat.eqb_neq in E. rewrite E. apply andb_false_r. }
+  rewrite Ebad. cbn [andb negb]. rewrite forM_None. reflexivity.
+Qed.
+
+(* a single physical site: the root itself is replaced, any shape is accepted *)
+Lemma replace_root_one b shp s0 : add_root empty_store 0 [b; b; 1] = Some s0 ->
+  exists s', replace_node s0 2 0 shp = Some s' /\ nodes s' = [(2, new_node shp)] /\ root s' = Some 2.
+Proof.
+  unfold add_root. cbn [root empty_store fresh_wires fresh_atom nodes tensors dims next_wire next_atom defs atab
+                        upd_nodes upd_tensors set_root aset app bind].
+  intros E. injection E as <-.
+  unfold replace_node.
+  cbn [nodes tensors aget Nat.eqb set_root upd_tensors upd_nodes aset new_node nvirt nparents parent children
+       length plus seq forallb negb].
+  unfold replace_node_in_neighbours.
+  cbn [nodes tensors aget Nat.eqb set_root upd_tensors upd_nodes aset new_node nvirt nparents parent children
+       length plus seq forallb negb fold_left adel bind root firstn skipn app].
+  match goal with |- context [fresh_wires ?s2 shp] => destruct (fresh_wires s2 shp) as [s3 ws] eqn:E end.
+  apply fw_spec in E. cbn [nodes tensors root next_wire dims] in E. destruct E as (Ews & En & Et & Er & Ed & Ew).
+  unfold fresh_atom. eexists. split; [reflexivity|].
+  cbn [nodes root upd_tensors upd_nodes]. rewrite En, Er. split; reflexivity.
+Qed.
+
+Theorem binary_ttns_one (bd : Z) (shp : list nat) : (1 <= bd)%Z ->
+  exists s, binary_ttns 1 bd shp = Some (s, [(0, LVirt 0 0); (site_id 1 0, LSite 0)])
+    /\ nodes s = [(site_id 1 0, new_node shp)] /\ root s = Some (site_id 1 0) /\ wfb s = true.
+Proof.
+  intros Hb. unfold binary_ttns. destruct (Z.ltb_spec bd 1); [lia|]. change ((1 <? 1)%Z) with false. cbn [orb].
+  change (Z.to_nat 1) with 1. set (b := Z.to_nat bd). change (virt_id 0 0) with 0.
+  destruct (add_root_accepted empty_store 0 [b; b; 1] eq_refl) as (s0 & E0).
+  rewrite E0. cbn [bind]. rewrite bin_loop_eq. cbn [length Nat.eqb bind seq combine]. rewrite forM_cons.
+  cbn [bind fst snd hid forM fold_left]. change (site_id 1 0) with 2.
+  destruct (replace_root_one b shp s0 E0) as (s' & ER & Hn & Hr).
+  rewrite ER. cbn [bind map app]. exists s'. repeat split; auto.
+  apply wfb_iff. apply (replace_node_preserves_wf s0 2 0 shp s'); auto.
+  - eapply add_root_wf; [apply blank_empty|exact E0].
+  - destruct (add_root_spec _ _ _ E0) as (Hn0 & _). rewrite Hn0. reflexivity.
+Qed.
+
+Example binary_example :
+  option_map (fun sl => (nodes (fst sl), snd sl, wfb (fst sl))) (binary_ttns 5 2 [2; 3])
+  = Some (bin_nodes 2 5 [2; 3], bin_labels 5, true).
 Proof. vm_compute. reflexivity. Qed.
